@@ -1,2168 +1,12 @@
 /-
-Helper lemmas for property C13 (Garnish/Props/C13.lean), about the lexer model Garnish.Model.Lexer
-(= lexer.rs with the repair patches lexfix-1..5).
-
-The central object is the invariant `Core σ consumed toks` ("after reading `consumed` the lexer `σ` has emitted
-`toks`, holds the rest in `current_characters`, knows where the pending token started and where it is, and has no
-error recorded"). `processChar_core` shows that `process_char` on a regular character keeps it or records an error,
-`processChar_end` treats the end-of-input sentinel, `lexLoop_final`/`lex_final` lift this to `lex`.
+Helper lemmas for property C13 (Garnish/Props/C13.lean), about the lexer model Garnish.Model.Lexer — part 5: operator tokens and the character after them, `Inv2`, `lex_final2`, longest match.
+(The C13 lemmas are split over LexerC13Core, LexerC13Loop, LexerC13Blank, LexerC13Tree and LexerC13, each importing
+the previous one; importing Garnish.Lemmas.LexerC13 gives all of them.)
 -/
-import Garnish.Lemmas.Lexer
+import Garnish.Lemmas.LexerC13Tree
 set_option linter.unusedSimpArgs false
 set_option linter.unusedVariables false
 namespace Garnish.Model.Lexer
-
-/-- position after reading `p`: (number of `'\n'`, number of characters after the last `'\n'`) -/
-def posOf (p : List Char) : Nat × Nat :=
-  (p.count '\n', (p.reverse.takeWhile (· != '\n')).length)
-
-theorem posOf_nil : posOf [] = (0, 0) := rfl
-
-theorem posOf_snoc (p : List Char) (c : Char) :
-    posOf (p ++ [c]) = if c = '\n' then ((posOf p).1 + 1, 0) else ((posOf p).1, (posOf p).2 + 1) := by
-  unfold posOf
-  by_cases h : c = '\n'
-  · subst h; simp
-  · simp [h, List.count_append]
-
-/-- concatenated token texts -/
-def textsOf (toks : List LexerToken) : List Char := (toks.map (·.text)).flatten
-
-@[simp] theorem textsOf_nil : textsOf [] = [] := rfl
-theorem textsOf_snoc (toks : List LexerToken) (t : LexerToken) : textsOf (toks ++ [t]) = textsOf toks ++ t.text := by
-  simp [textsOf]
-
-/-- every token's row/column is the position of its first character, `p` being the text before the tokens -/
-def TokPosFrom : List Char → List LexerToken → Prop
-  | _, [] => True
-  | p, t :: ts => (t.row, t.column) = posOf p ∧ TokPosFrom (p ++ t.text) ts
-
-theorem TokPosFrom_snoc : ∀ (p : List Char) (ts : List LexerToken) (t : LexerToken),
-    TokPosFrom p ts → (t.row, t.column) = posOf (p ++ textsOf ts) → TokPosFrom p (ts ++ [t])
-  | p, [], t, _, h => by simpa [TokPosFrom] using h
-  | p, t0 :: ts, t, h0, h => by
-    simp only [List.cons_append, TokPosFrom] at h0 ⊢
-    refine ⟨h0.1, TokPosFrom_snoc _ ts t h0.2 ?_⟩
-    simpa [textsOf, List.append_assoc] using h
-
-/-- `c` is the end-of-input sentinel -/
-def Sentinel (σ : Lexer) (c : Char) : Prop := c = '\x00' ∧ σ.atEnd = true
-
-/-- extra sanity of the Unicode tables: `'.'` is neither numeric nor alphanumeric -/
-structure CharClass.Sane2 (cc : CharClass) : Prop extends cc.Sane where
-  dotNumeric : cc.isNumeric '.' = false
-  dotAlphanumeric : cc.isAlphanumeric '.' = false
-
-/-- everything `start_token` leaves alone -/
-structure StartFrame (σ σ2 : Lexer) : Prop where
-  textRow : σ2.textRow = σ.textRow
-  textColumn : σ2.textColumn = σ.textColumn
-  tokenStartRow : σ2.tokenStartRow = σ.textRow
-  tokenStartColumn : σ2.tokenStartColumn = σ.textColumn
-  shouldCreate : σ2.shouldCreate = σ.shouldCreate
-  atEnd : σ2.atEnd = σ.atEnd
-  operatorTree : σ2.operatorTree = σ.operatorTree
-
-theorem startToken_startFrame (cc : CharClass) (σ : Lexer) (c : Char) : StartFrame σ (startToken cc σ c) := by
-  generalize hr : startToken cc σ c = r
-  unfold startToken at hr
-  simp only [] at hr
-  repeat' split at hr
-  all_goals (subst hr; constructor <;> rfl)
-
-/-- what `start_token` does to state / characters / result -/
-theorem startToken_effect (cc : CharClass) (σ : Lexer) (c : Char) (hok : σ.result = .ok) :
-    (startToken cc σ c).result = .err ∨
-    ((startToken cc σ c).result = .ok ∧ (startToken cc σ c).state = .noToken ∧
-        (startToken cc σ c).currentCharacters = [] ∧ Sentinel σ c) ∨
-    ((startToken cc σ c).result = .ok ∧ (startToken cc σ c).state ≠ .noToken ∧ (startToken cc σ c).state ≠ .float ∧
-        (startToken cc σ c).currentCharacters = [c] ∧
-        ((startToken cc σ c).state = .number → cc.isNumeric c = true)) := by
-  generalize hr : startToken cc σ c = r
-  unfold startToken at hr
-  simp only [] at hr
-  repeat' split at hr
-  all_goals (subst hr; simp_all [push, Sentinel])
-
-/-- shape of the characters of a float under construction: `a.b`, no other period; `.b` needs a digit -/
-def FloatShape (cs : List Char) : Prop :=
-  ∃ a b, cs = a ++ '.' :: b ∧ '.' ∉ a ∧ '.' ∉ b ∧ (a = [] → b ≠ [])
-
-def Shape (σ : Lexer) : Prop :=
-  (σ.state = .number → '.' ∉ σ.currentCharacters) ∧ (σ.state = .float → FloatShape σ.currentCharacters)
-
-/-- fields the arms of `process_char` (other than NoToken and the float split) leave alone -/
-structure ArmFrame (σ σ1 : Lexer) : Prop where
-  textRow : σ1.textRow = σ.textRow
-  textColumn : σ1.textColumn = σ.textColumn
-  tokenStartRow : σ1.tokenStartRow = σ.tokenStartRow
-  tokenStartColumn : σ1.tokenStartColumn = σ.tokenStartColumn
-  result : σ1.result = σ.result
-  atEnd : σ1.atEnd = σ.atEnd
-  operatorTree : σ1.operatorTree = σ.operatorTree
-
-theorem armFrame_iff (σ σ1 : Lexer) : ArmFrame σ σ1 ↔
-    (σ1.textRow = σ.textRow ∧ σ1.textColumn = σ.textColumn ∧ σ1.tokenStartRow = σ.tokenStartRow ∧
-     σ1.tokenStartColumn = σ.tokenStartColumn ∧ σ1.result = σ.result ∧ σ1.atEnd = σ.atEnd ∧
-     σ1.operatorTree = σ.operatorTree) :=
-  ⟨fun h => ⟨h.1, h.2, h.3, h.4, h.5, h.6, h.7⟩, fun h => ⟨h.1, h.2.1, h.2.2.1, h.2.2.2.1, h.2.2.2.2.1, h.2.2.2.2.2.1, h.2.2.2.2.2.2⟩⟩
-
-/-- the three ways an arm treats a regular character: continue the token with it, end the token before it,
-end the token with it -/
-def ArmKind (σ : Lexer) (c : Char) (σ1 : Lexer) (sn : Bool) : Prop :=
-  (sn = false ∧ σ1.shouldCreate = true ∧ σ1.currentCharacters = σ.currentCharacters ++ [c] ∧
-      σ1.state ≠ .noToken ∧ Shape σ1) ∨
-  (sn = true ∧ σ1.shouldCreate = true ∧ σ1.currentCharacters = σ.currentCharacters ∧ σ1.state ≠ .noToken) ∨
-  (sn = true ∧ σ1.shouldCreate = false ∧ σ1.currentCharacters = σ.currentCharacters ++ [c] ∧ σ1.state ≠ .noToken)
-
-def ArmEff (σ : Lexer) (c : Char) (p : Lexer × Bool) : Prop := ArmFrame σ p.1 ∧ ArmKind σ c p.1 p.2
-
-/-- `hr : arm … = r`: unfold, split, substitute, simplify -/
-macro "arm_tac" f:ident hr:ident : tactic =>
-  `(tactic| (unfold $f at $hr:ident; (try simp only [] at $hr:ident); (repeat' split at $hr:ident);
-             all_goals (subst $hr:ident; simp_all [ArmEff, ArmKind, Shape, push, Sentinel, armFrame_iff])))
-
-theorem armIdentifier_eff (cc : CharClass) (σ : Lexer) (c : Char) (hs : σ.state = .identifier)
-    (hc : σ.shouldCreate = true) : ArmEff σ c (armIdentifier cc σ c) := by
-  generalize hr : armIdentifier cc σ c = r
-  arm_tac armIdentifier hr
-
-theorem armStartCharList_eff (σ : Lexer) (c : Char) (hs : σ.state = .startCharList)
-    (hc : σ.shouldCreate = true) (hns : ¬Sentinel σ c) : ArmEff σ c (armStartCharList σ c) := by
-  generalize hr : armStartCharList σ c = r
-  arm_tac armStartCharList hr
-
-theorem armCharList_eff (σ : Lexer) (c : Char) (hs : σ.state = .charList)
-    (hc : σ.shouldCreate = true) : ArmEff σ c (armCharList σ c) := by
-  generalize hr : armCharList σ c = r
-  arm_tac armCharList hr
-
-theorem armStartByteList_eff (σ : Lexer) (c : Char) (hs : σ.state = .startByteList)
-    (hc : σ.shouldCreate = true) (hns : ¬Sentinel σ c) : ArmEff σ c (armStartByteList σ c) := by
-  generalize hr : armStartByteList σ c = r
-  arm_tac armStartByteList hr
-
-theorem armByteList_eff (σ : Lexer) (c : Char) (hs : σ.state = .byteList)
-    (hc : σ.shouldCreate = true) : ArmEff σ c (armByteList σ c) := by
-  generalize hr : armByteList σ c = r
-  arm_tac armByteList hr
-
-theorem armSpaces_eff (σ : Lexer) (c : Char) (hs : σ.state = .spaces)
-    (hc : σ.shouldCreate = true) : ArmEff σ c (armSpaces σ c) := by
-  generalize hr : armSpaces σ c = r
-  arm_tac armSpaces hr
-
-theorem armSubexpression_eff (σ : Lexer) (c : Char) (hs : σ.state = .subexpression)
-    (hc : σ.shouldCreate = true) : ArmEff σ c (armSubexpression σ c) := by
-  generalize hr : armSubexpression σ c = r
-  arm_tac armSubexpression hr
-
-theorem armAnnotation_eff (cc : CharClass) (σ : Lexer) (c : Char) (hs : σ.state = .annotation)
-    (hc : σ.shouldCreate = true) : ArmEff σ c (armAnnotation cc σ c) := by
-  generalize hr : armAnnotation cc σ c = r
-  arm_tac armAnnotation hr
-
-theorem armLineAnnotation_eff (σ : Lexer) (c : Char) (hs : σ.state = .lineAnnotation)
-    (hc : σ.shouldCreate = true) (hns : ¬Sentinel σ c) : ArmEff σ c (armLineAnnotation σ c) := by
-  generalize hr : armLineAnnotation σ c = r
-  arm_tac armLineAnnotation hr
-
-@[simp] theorem pop_push (s : List Char) (c : Char) : pop (push s c) = s := by
-  simp [pop, push]
-
-theorem utf8Len_append (a b : List Char) : utf8Len (a ++ b) = utf8Len a + utf8Len b := by
-  induction a with
-  | nil => simp [utf8Len]
-  | cons x r ih => simp [utf8Len, ih]; omega
-
-theorem utf8Len_eq_zero {a : List Char} (h : utf8Len a = 0) : a = [] := by
-  cases a with
-  | nil => rfl
-  | cons x r =>
-    have := Char.utf8Size_pos x
-    simp [utf8Len] at h; omega
-
-theorem sane2_ne_dot {cc : CharClass} (hcc : cc.Sane2) {c : Char}
-    (h : (cc.isNumeric c || c == '_' || cc.isAlphanumeric c) = true) : c ≠ '.' := by
-  intro hc; subst hc
-  simp [hcc.dotNumeric, hcc.dotAlphanumeric] at h
-
-theorem FloatShape_push {cs : List Char} {c : Char} (h : FloatShape cs) (hc : c ≠ '.') : FloatShape (cs ++ [c]) := by
-  obtain ⟨a, b, rfl, ha, hb, hab⟩ := h
-  refine ⟨a, b ++ [c], by simp, ha, ?_, fun _ => by simp⟩
-  simp only [List.mem_append, List.mem_singleton, not_or]
-  exact ⟨hb, fun h => hc h.symm⟩
-
-theorem FloatShape_of_number {cs : List Char} (h : '.' ∉ cs) (hne : cs ≠ []) : FloatShape (cs ++ ['.']) :=
-  ⟨cs, [], rfl, h, by simp, fun h0 => absurd h0 hne⟩
-
-theorem FloatShape_dot_digit {cs : List Char} {c : Char} (hne : cs ≠ []) (hs : startsWith (cs ++ [c]) '.' = true)
-    (hl : utf8Len (cs ++ [c]) = 2) (hc : c ≠ '.') : FloatShape (cs ++ [c]) := by
-  cases cs with
-  | nil => exact absurd rfl hne
-  | cons x r =>
-    have hx : x = '.' := by simpa [startsWith] using hs
-    subst hx
-    have h1 := Char.utf8Size_pos c
-    have h2 : ('.' : Char).utf8Size = 1 := by decide
-    rw [utf8Len_append] at hl
-    simp only [utf8Len, h2] at hl
-    have hr : r = [] := utf8Len_eq_zero (by omega)
-    subst hr
-    exact ⟨[], [c], rfl, by simp, by simpa using fun h => hc h.symm, fun _ => by simp⟩
-
-theorem armOperator_eff (cc : CharClass) (hcc : cc.Sane2) (σ : Lexer) (c : Char) (hs : σ.state = .operator)
-    (hc : σ.shouldCreate = true) (hne : σ.currentCharacters ≠ []) : ArmEff σ c (armOperator cc σ c) := by
-  generalize hr : armOperator cc σ c = r
-  unfold armOperator at hr
-  simp only [] at hr
-  repeat' split at hr
-  all_goals (subst hr; simp_all [ArmEff, ArmKind, Shape, Sentinel, armFrame_iff])
-  all_goals (try simp [push])
-  rename_i h
-  refine FloatShape_dot_digit hne (by simpa [push] using h.1.1.1) (by simpa [push] using h.1.1.2) ?_
-  intro hdot; subst hdot
-  simp [hcc.dotNumeric] at h
-
-theorem armNumber_eff (cc : CharClass) (hcc : cc.Sane2) (σ : Lexer) (c : Char) (hs : σ.state = .number)
-    (hc : σ.shouldCreate = true) (hne : σ.currentCharacters ≠ []) (hsh : Shape σ) :
-    ArmEff σ c (armNumber cc σ c) := by
-  have hnd := hsh.1 hs
-  generalize hr : armNumber cc σ c = r
-  unfold armNumber at hr
-  repeat' split at hr
-  all_goals (subst hr; simp_all [ArmEff, ArmKind, Shape, Sentinel, armFrame_iff, push])
-  · rename_i h
-    intro hdot; subst hdot
-    simp [hcc.dotNumeric, hcc.dotAlphanumeric] at h
-  · exact FloatShape_of_number hnd hne
-
-theorem dropWhile_dot_ne {x : Char} {r : List Char} (h : x ≠ '.') :
-    (x :: r).dropWhile (fun y => y == '.') = x :: r := by
-  have : (x == '.') = false := by simpa using h
-  simp [List.dropWhile, this]
-
-theorem dropWhile_dot_eq (r : List Char) :
-    ('.' :: r).dropWhile (fun y => y == '.') = r.dropWhile (fun y => y == '.') := by
-  simp [List.dropWhile]
-
-theorem trimMatches_number {a : List Char} (hne : a ≠ []) (hnd : '.' ∉ a) : trimMatches (a ++ ['.']) '.' = a := by
-  unfold trimMatches
-  cases a with
-  | nil => exact absurd rfl hne
-  | cons x r =>
-    have hx : x ≠ '.' := by intro h; subst h; simp at hnd
-    rw [List.cons_append, dropWhile_dot_ne hx]
-    rw [← List.cons_append, List.reverse_append]
-    simp only [List.reverse_cons, List.reverse_nil, List.nil_append, List.singleton_append]
-    rw [dropWhile_dot_eq]
-    -- the reversed number starts with its last character, which is not a period
-    cases hrev : (r.reverse ++ [x]) with
-    | nil => simp at hrev
-    | cons y ys =>
-      have hy : y ∈ x :: r := by
-        have : y ∈ r.reverse ++ [x] := by rw [hrev]; simp
-        simpa [or_comm] using this
-      have hyd : y ≠ '.' := by intro h; subst h; exact hnd hy
-      rw [dropWhile_dot_ne hyd, ← hrev]
-      simp
-
-theorem FloatShape_endsWith {cs : List Char} (h : FloatShape cs) (he : endsWith cs '.' = true) :
-    ∃ a, cs = a ++ ['.'] ∧ a ≠ [] ∧ '.' ∉ a := by
-  obtain ⟨a, b, rfl, ha, hb, hab⟩ := h
-  have hb0 : b = [] := by
-    cases hbl : b.getLast? with
-    | none => simpa using hbl
-    | some y =>
-      have hy : y ∈ b := List.mem_of_getLast? hbl
-      have : (a ++ '.' :: b).getLast? = some y := by
-        cases b with
-        | nil => simp at hbl
-        | cons z zs => simp [List.getLast?_append, List.getLast?_cons_cons] at hbl ⊢; simp [hbl]
-      simp [endsWith, this] at he
-      subst he
-      exact absurd hy hb
-  subst hb0
-  refine ⟨a, rfl, ?_, ha⟩
-  intro h0; exact hab h0 rfl
-
-/-- the float split: `1.` followed by `.` emits the number and continues as the range operator `..` -/
-structure FloatSplit (σ : Lexer) (a : List Char) (σ1 : Lexer) : Prop where
-  chars0 : σ.currentCharacters = a ++ ['.']
-  ane : a ≠ []
-  anodot : '.' ∉ a
-  chars : σ1.currentCharacters = ['.', '.']
-  tokenStartRow : σ1.tokenStartRow = σ.textRow
-  tokenStartColumn : σ1.tokenStartColumn = σ.textColumn - 1
-  textRow : σ1.textRow = σ.textRow
-  textColumn : σ1.textColumn = σ.textColumn
-  shouldCreate : σ1.shouldCreate = σ.shouldCreate
-  result : σ1.result = .ok
-  notNoToken : σ1.state ≠ .noToken
-  notFloat : σ1.state ≠ .float
-  notNumber : σ1.state ≠ .number
-  atEnd : σ1.atEnd = σ.atEnd
-  operatorTree : σ1.operatorTree = σ.operatorTree
-
-def FloatOut (σ : Lexer) (c : Char) (st : Step) : Prop :=
-  (∃ σ1 sn, st = .cont σ1 none sn ∧ ArmEff σ c (σ1, sn)) ∨
-  ((∃ σ1 nt, st = .cont σ1 nt false ∧ σ1.result = .err) ∨ (∃ σ1, st = .returnNone σ1 ∧ σ1.result = .err)) ∨
-  (c = '.' ∧ ∃ a σ1, st = .cont σ1 (some ⟨a, .number, σ.tokenStartRow, σ.tokenStartColumn⟩) false ∧
-    FloatSplit σ a σ1)
-
-theorem armFloat_eff (cc : CharClass) (hcc : cc.Sane2) (σ : Lexer) (c : Char) (hs : σ.state = .float)
-    (hc : σ.shouldCreate = true) (hsh : Shape σ) (hpos : 1 ≤ σ.textColumn) (hok : σ.result = .ok) :
-    ∃ st, armFloat cc σ c = .ok st ∧ FloatOut σ c st := by
-  have hfs := hsh.2 hs
-  unfold armFloat
-  split
-  · rename_i hcond
-    refine ⟨_, rfl, Or.inl ⟨_, _, rfl, ?_⟩⟩
-    have := FloatShape_push hfs (sane2_ne_dot hcc hcond)
-    simp [ArmEff, ArmKind, Shape, armFrame_iff, push, hs, hc, this]
-  · split
-    · rename_i hcond
-      have hc' : c = '.' := by simp at hcond; exact hcond.1
-      subst hc'
-      have hends : endsWith σ.currentCharacters '.' = true := by simp at hcond; exact hcond
-      obtain ⟨a, ha, hane, hand⟩ := FloatShape_endsWith hfs hends
-      have hne : ¬ (σ.textColumn = 0) := by omega
-      simp only [hne, ↓reduceIte]
-      have hfr := startToken_startFrame cc { σ with tokenStartRow := σ.textRow } '.'
-      have heff := startToken_effect cc { σ with tokenStartRow := σ.textRow } '.' (by simpa using hok)
-      generalize hst : startToken cc { σ with tokenStartRow := σ.textRow } '.' = st at hfr heff
-      rcases heff with herr | ⟨_, _, _, hsent⟩ | ⟨hrok, hnt, hnf, hchars, hnum⟩
-      · -- start_token failed: the error stays
-        split
-        · exact ⟨_, rfl, Or.inr (Or.inl (Or.inl ⟨_, _, rfl, by simpa using herr⟩))⟩
-        · exact ⟨_, rfl, Or.inr (Or.inl (Or.inr ⟨_, rfl, rfl⟩))⟩
-      · exact absurd hsent.1 (by decide)
-      · split
-        · refine ⟨_, rfl, Or.inr (Or.inr ⟨rfl, a, ?_⟩)⟩
-          rw [ha, trimMatches_number hane hand]
-          refine ⟨_, rfl, ?_⟩
-          · have hnn : st.state ≠ .number := fun h => by
-              have := hnum h; rw [hcc.dotNumeric] at this; cases this
-            have h1 : st.textRow = σ.textRow := hfr.textRow
-            have h2 : st.textColumn = σ.textColumn := hfr.textColumn
-            have h3 : st.tokenStartRow = σ.textRow := hfr.tokenStartRow
-            have h4 : st.shouldCreate = σ.shouldCreate := hfr.shouldCreate
-            have h5 : st.atEnd = σ.atEnd := hfr.atEnd
-            have h6 : st.operatorTree = σ.operatorTree := hfr.operatorTree
-            constructor <;> simp_all [push]
-        · exact ⟨_, rfl, Or.inr (Or.inl (Or.inr ⟨_, rfl, rfl⟩))⟩
-    · refine ⟨_, rfl, Or.inl ⟨_, _, rfl, ?_⟩⟩
-      simp [ArmEff, ArmKind, armFrame_iff, hs, hc]
-
-/-! ## the C13 invariant -/
-
-/-- state of the lexer after `consumed` has been read and `toks` have been emitted (and no error recorded) -/
-structure Core (σ : Lexer) (consumed : List Char) (toks : List LexerToken) : Prop where
-  lossless : textsOf toks ++ σ.currentCharacters = consumed
-  nonempty : ∀ t ∈ toks, t.text ≠ []
-  noTok : σ.state = .noToken → σ.currentCharacters = []
-  tok : σ.state ≠ .noToken → σ.currentCharacters ≠ []
-  tokPos : TokPosFrom [] toks
-  startPos : σ.state ≠ .noToken → (σ.tokenStartRow, σ.tokenStartColumn) = posOf (textsOf toks)
-  textPos : (σ.textRow, σ.textColumn) = posOf consumed
-  shape : Shape σ
-  create : σ.shouldCreate = true
-  ok : σ.result = .ok
-
-theorem startToken_result_err (cc : CharClass) (σ : Lexer) (c : Char) (h : σ.result = .err) :
-    (startToken cc σ c).result = .err := by
-  generalize hr : startToken cc σ c = r
-  unfold startToken at hr
-  simp only [] at hr
-  repeat' split at hr
-  all_goals (subst hr; simp_all)
-
-theorem bumpColumn_textPos (σ : Lexer) (c : Char) (consumed : List Char)
-    (h : (σ.textRow, σ.textColumn) = posOf consumed) :
-    ((bumpColumn σ c).textRow, (bumpColumn σ c).textColumn) = posOf (consumed ++ [c]) := by
-  rw [posOf_snoc, ← h]
-  unfold bumpColumn
-  by_cases hc : c = '\n' <;> simp [hc]
-
-@[simp] theorem bumpColumn_tokenStartRow (σ : Lexer) (c : Char) : (bumpColumn σ c).tokenStartRow = σ.tokenStartRow := by
-  unfold bumpColumn; split <;> rfl
-@[simp] theorem bumpColumn_tokenStartColumn (σ : Lexer) (c : Char) :
-    (bumpColumn σ c).tokenStartColumn = σ.tokenStartColumn := by
-  unfold bumpColumn; split <;> rfl
-@[simp] theorem bumpColumn_shouldCreate (σ : Lexer) (c : Char) : (bumpColumn σ c).shouldCreate = σ.shouldCreate := by
-  unfold bumpColumn; split <;> rfl
-@[simp] theorem bumpColumn_result (σ : Lexer) (c : Char) : (bumpColumn σ c).result = σ.result := by
-  unfold bumpColumn; split <;> rfl
-@[simp] theorem bumpColumn_atEnd (σ : Lexer) (c : Char) : (bumpColumn σ c).atEnd = σ.atEnd := by
-  unfold bumpColumn; split <;> rfl
-
-theorem Shape_bump {σ : Lexer} {c : Char} (h : Shape σ) : Shape (bumpColumn σ c) := by
-  unfold Shape at *; simpa using h
-
-/-- a freshly started token (regular character) re-establishes the invariant -/
-theorem Core_start (cc : CharClass) (hcc : cc.Sane2) (σ2 : Lexer) (c : Char) (consumed : List Char)
-    (toks : List LexerToken)
-    (hlos : textsOf toks = consumed) (hne : ∀ t ∈ toks, t.text ≠ []) (hpos : TokPosFrom [] toks)
-    (htext : (σ2.textRow, σ2.textColumn) = posOf consumed) (hcr : σ2.shouldCreate = true) (hok : σ2.result = .ok)
-    (hns : ¬Sentinel σ2 c) :
-    (bumpColumn (startToken cc σ2 c) c).result = .err ∨
-    Core (bumpColumn (startToken cc σ2 c) c) (consumed ++ [c]) toks := by
-  have hfr := startToken_startFrame cc σ2 c
-  rcases startToken_effect cc σ2 c hok with herr | ⟨_, _, _, hsent⟩ | ⟨hrok, hnt, hnf, hchars, hnum⟩
-  · exact Or.inl (by simpa using herr)
-  · exact absurd hsent hns
-  · refine Or.inr ⟨?_, hne, ?_, ?_, hpos, ?_, ?_, ?_, ?_, ?_⟩
-    · simp [hchars, hlos]
-    · intro h; simp at h; exact absurd h hnt
-    · intro _; simp [hchars]
-    · intro _
-      simp only [bumpColumn_tokenStartRow, bumpColumn_tokenStartColumn, hfr.tokenStartRow, hfr.tokenStartColumn]
-      rw [hlos]; exact htext
-    · apply bumpColumn_textPos
-      rw [hfr.textRow, hfr.textColumn]; exact htext
-    · apply Shape_bump
-      refine ⟨fun h => ?_, fun h => absurd h hnf⟩
-      rw [hchars]
-      have hn := hnum h
-      intro hmem
-      simp at hmem
-      subst hmem
-      rw [hcc.dotNumeric] at hn; cases hn
-    · simp [hfr.shouldCreate, hcr]
-    · simpa using hrok
-
-theorem TokPosFrom_emit {σ : Lexer} {consumed : List Char} {toks : List LexerToken} (hcore : Core σ consumed toks)
-    (hst : σ.state ≠ .noToken) (text : List Char) (ty : Gen.TokenType) :
-    TokPosFrom [] (toks ++ [⟨text, ty, σ.tokenStartRow, σ.tokenStartColumn⟩]) := by
-  apply TokPosFrom_snoc _ _ _ hcore.tokPos
-  simpa using hcore.startPos hst
-
-/-- the part of `process_char` after the arm, for an arm that treated a regular character in one of the three ways -/
-theorem finishChar_core (cc : CharClass) (hcc : cc.Sane2) (σ : Lexer) (c : Char) (consumed : List Char)
-    (toks : List LexerToken) (hcore : Core σ consumed toks) (hst : σ.state ≠ .noToken)
-    (σ1 : Lexer) (sn : Bool) (heff : ArmEff σ c (σ1, sn)) (hns : ¬Sentinel σ c) :
-    (finishChar cc σ1 c none sn).1.result = .err ∨
-    Core (finishChar cc σ1 c none sn).1 (consumed ++ [c]) (toks ++ (finishChar cc σ1 c none sn).2.toList) := by
-  obtain ⟨hfr, hk⟩ := heff
-  simp only [] at hfr hk
-  have hok1 : σ1.result = .ok := by rw [hfr.result]; exact hcore.ok
-  rcases hk with ⟨rfl, hcr, hch, hnt, hsh⟩ | ⟨rfl, hcr, hch, hnt⟩ | ⟨rfl, hcr, hch, hnt⟩
-  · -- the character continues the token
-    right
-    simp only [finishChar, Bool.false_eq_true, ↓reduceIte, Option.toList_none, List.append_nil]
-    refine ⟨?_, hcore.nonempty, ?_, ?_, hcore.tokPos, ?_, ?_, Shape_bump hsh, by simpa using hcr, by simpa using hok1⟩
-    · simp [hch, ← hcore.lossless]
-    · intro h; simp at h; exact absurd h hnt
-    · intro _; simp [hch]
-    · intro _
-      simp only [bumpColumn_tokenStartRow, bumpColumn_tokenStartColumn, hfr.tokenStartRow, hfr.tokenStartColumn]
-      exact hcore.startPos hst
-    · apply bumpColumn_textPos
-      rw [hfr.textRow, hfr.textColumn]; exact hcore.textPos
-  · -- the token ends before the character, which starts the next token
-    simp only [finishChar, ↓reduceIte, pushNewToken]
-    have hne : (σ1.state != LexingState.noToken) = true := by simpa using hnt
-    simp only [hne, ↓reduceIte]
-    cases hcv : canCreateValidToken { σ1 with canFloat := !blocksFloat σ1.currentTokenType } with
-    | err =>
-      left
-      simp only [LexResult.isOk, Bool.false_eq_true, ↓reduceIte, hcr]
-      simp only [bumpColumn_result]
-      exact startToken_result_err cc _ c rfl
-    | ok =>
-      simp only [LexResult.isOk, ↓reduceIte]
-      cases hty : σ1.currentTokenType with
-      | none => left; rfl
-      | some ty =>
-        simp only [hcr, ↓reduceIte, Option.toList_some]
-        have hchne : σ.currentCharacters ≠ [] := hcore.tok hst
-        rw [hfr.tokenStartRow, hfr.tokenStartColumn, hch]
-        apply Core_start cc hcc
-        · rw [textsOf_snoc]; exact hcore.lossless
-        · intro t ht
-          simp only [List.mem_append, List.mem_singleton] at ht
-          rcases ht with ht | rfl
-          · exact hcore.nonempty t ht
-          · exact hchne
-        · exact TokPosFrom_emit hcore hst _ _
-        · simp only [hfr.textRow, hfr.textColumn]; exact hcore.textPos
-        · rfl
-        · rfl
-        · intro hs; exact hns ⟨hs.1, by simpa [hfr.atEnd] using hs.2⟩
-  · -- the token ends with the character
-    simp only [finishChar, ↓reduceIte, pushNewToken]
-    have hne : (σ1.state != LexingState.noToken) = true := by simpa using hnt
-    simp only [hne, ↓reduceIte]
-    cases hcv : canCreateValidToken { σ1 with canFloat := !blocksFloat σ1.currentTokenType } with
-    | err =>
-      left
-      simp [LexResult.isOk, hcr]
-    | ok =>
-      simp only [LexResult.isOk, ↓reduceIte]
-      cases hty : σ1.currentTokenType with
-      | none => left; rfl
-      | some ty =>
-        right
-        simp only [hcr, Bool.false_eq_true, ↓reduceIte, Option.toList_some]
-        rw [hfr.tokenStartRow, hfr.tokenStartColumn, hch]
-        refine ⟨?_, ?_, ?_, ?_, TokPosFrom_emit hcore hst _ _, ?_, ?_, ?_, by simp, by simp⟩
-        · simp [textsOf_snoc, ← hcore.lossless]
-        · intro t ht
-          simp only [List.mem_append, List.mem_singleton] at ht
-          rcases ht with ht | rfl
-          · exact hcore.nonempty t ht
-          · simp
-        · intro _; simp
-        · intro h; simp at h
-        · intro h; simp at h
-        · apply bumpColumn_textPos
-          simp only [hfr.textRow, hfr.textColumn]; exact hcore.textPos
-        · apply Shape_bump
-          exact ⟨fun h => by simp at h, fun h => by simp at h⟩
-
-theorem Core_lexed {σ : Lexer} {consumed : List Char} {toks : List LexerToken} (n : Nat)
-    (h : Core σ consumed toks) : Core { σ with charactersLexed := n } consumed toks :=
-  ⟨h.1, h.2, h.3, h.4, h.5, h.6, h.7, h.8, h.9, h.10⟩
-
-/-- the float split keeps the invariant -/
-theorem floatSplit_core (σ : Lexer) (consumed : List Char) (toks : List LexerToken) (hcore : Core σ consumed toks)
-    (hst : σ.state ≠ .noToken) (a : List Char) (σ1 : Lexer) (hsp : FloatSplit σ a σ1) :
-    Core (bumpColumn σ1 '.') (consumed ++ ['.'])
-      (toks ++ [⟨a, .number, σ.tokenStartRow, σ.tokenStartColumn⟩]) := by
-  have hcons : consumed = (textsOf toks ++ a) ++ ['.'] := by
-    rw [← hcore.lossless, hsp.chars0, List.append_assoc]
-  refine ⟨?_, ?_, ?_, ?_, TokPosFrom_emit hcore hst _ _, ?_, ?_, ?_, ?_, ?_⟩
-  · simp [textsOf_snoc, hsp.chars, hcons]
-  · intro t ht
-    simp only [List.mem_append, List.mem_singleton] at ht
-    rcases ht with ht | rfl
-    · exact hcore.nonempty t ht
-    · exact hsp.ane
-  · intro h; simp at h; exact absurd h hsp.notNoToken
-  · intro _; simp [hsp.chars]
-  · intro _
-    simp only [bumpColumn_tokenStartRow, bumpColumn_tokenStartColumn, hsp.tokenStartRow, hsp.tokenStartColumn,
-      textsOf_snoc]
-    have htp := hcore.textPos
-    rw [hcons, posOf_snoc] at htp
-    simp only [show ¬ (('.' : Char) = '\n') by decide, ↓reduceIte] at htp
-    have h1 : σ.textRow = (posOf (textsOf toks ++ a)).1 := congrArg Prod.fst htp
-    have h2 : σ.textColumn = (posOf (textsOf toks ++ a)).2 + 1 := congrArg Prod.snd htp
-    rw [h1, h2]; simp
-  · apply bumpColumn_textPos
-    rw [hsp.textRow, hsp.textColumn]; exact hcore.textPos
-  · apply Shape_bump
-    exact ⟨fun h => absurd h hsp.notNumber, fun h => absurd h hsp.notFloat⟩
-  · simp [hsp.shouldCreate, hcore.create]
-  · simpa using hsp.result
-
-/-- `process_char` on a regular character keeps the invariant or records an error -/
-theorem processChar_core (cc : CharClass) (hcc : cc.Sane2) (σ : Lexer) (c : Char) (consumed : List Char)
-    (toks : List LexerToken) (hcore : Core σ consumed toks) (hinv : Inv σ) (hns : ¬Sentinel σ c)
-    (σ' : Lexer) (ot : Option LexerToken) (h : processChar cc σ c = .ok (σ', ot)) :
-    σ'.result = .err ∨ Core σ' (consumed ++ [c]) (toks ++ ot.toList) := by
-  unfold processChar at h
-  simp only [] at h
-  have hcore0 := Core_lexed (σ.charactersLexed + 1) hcore
-  generalize hσ0 : { σ with charactersLexed := σ.charactersLexed + 1 } = σ0 at h hcore0
-  have hs0 : σ0.state = σ.state := by subst hσ0; rfl
-  have hns0 : ¬Sentinel σ0 c := by subst hσ0; exact hns
-  have hinv0 : Inv σ0 := by subst hσ0; exact hinv
-  clear hσ0 hcore hns hinv
-  have key : ∀ p : Lexer × Bool, σ0.state ≠ .noToken → ArmEff σ0 c p →
-      stateStep cc σ0 c = Step.ofPair p → σ'.result = .err ∨ Core σ' (consumed ++ [c]) (toks ++ ot.toList) := by
-    intro p hst heff hss
-    rw [hss] at h
-    simp only [Step.ofPair, Outcome.ok.injEq] at h
-    have := finishChar_core cc hcc σ0 c consumed toks hcore0 hst p.1 p.2 heff hns0
-    rw [h] at this
-    exact this
-  unfold stateStep at h key
-  cases hs : σ0.state <;> rw [hs] at h key <;> simp only [] at h key
-  case noToken =>
-    simp only [Step.ofPair, armNoToken, finishChar, Bool.false_eq_true, ↓reduceIte, Outcome.ok.injEq,
-      Prod.mk.injEq] at h
-    obtain ⟨rfl, rfl⟩ := h
-    simp only [Option.toList_none, List.append_nil]
-    have hch := hcore0.noTok hs
-    apply Core_start cc hcc σ0 c consumed toks ?_ hcore0.nonempty hcore0.tokPos hcore0.textPos hcore0.create
-      hcore0.ok hns0
-    have := hcore0.lossless
-    rw [hch, List.append_nil] at this
-    exact this
-  case float =>
-    have hpos : 1 ≤ σ0.textColumn := hinv0 hs
-    obtain ⟨st, hst, hout⟩ := armFloat_eff cc hcc σ0 c hs hcore0.create hcore0.shape hpos hcore0.ok
-    rw [hst] at h
-    have hnt : σ0.state ≠ .noToken := by rw [hs]; decide
-    rcases hout with ⟨σ1, sn, rfl, heff⟩ | herr | ⟨rfl, a, σ1, rfl, hsp⟩
-    · simp only [Outcome.ok.injEq] at h
-      have := finishChar_core cc hcc σ0 c consumed toks hcore0 hnt σ1 sn heff hns0
-      rw [h] at this
-      exact this
-    · left
-      rcases herr with ⟨s1, nt, rfl, herr⟩ | ⟨s1, rfl, herr⟩
-      · simp only [finishChar, Bool.false_eq_true, ↓reduceIte, Outcome.ok.injEq, Prod.mk.injEq] at h
-        obtain ⟨rfl, _⟩ := h
-        simpa using herr
-      · simp only [Outcome.ok.injEq, Prod.mk.injEq] at h
-        obtain ⟨rfl, _⟩ := h
-        exact herr
-    · simp only [finishChar, Bool.false_eq_true, ↓reduceIte, Outcome.ok.injEq, Prod.mk.injEq] at h
-      obtain ⟨rfl, rfl⟩ := h
-      right
-      simpa using floatSplit_core σ0 consumed toks hcore0 hnt a σ1 hsp
-  all_goals (have hnt : σ0.state ≠ .noToken := by rw [hs]; decide)
-  · exact key _ (by decide) (armOperator_eff cc hcc σ0 c hs hcore0.create (hcore0.tok hnt)) rfl
-  · exact key _ (by decide) (armSpaces_eff σ0 c hs hcore0.create) rfl
-  · exact key _ (by decide) (armSubexpression_eff σ0 c hs hcore0.create) rfl
-  · exact key _ (by decide) (armNumber_eff cc hcc σ0 c hs hcore0.create (hcore0.tok hnt) hcore0.shape) rfl
-  · exact key _ (by decide) (armIdentifier_eff cc σ0 c hs hcore0.create) rfl
-  · exact key _ (by decide) (armAnnotation_eff cc σ0 c hs hcore0.create) rfl
-  · exact key _ (by decide) (armLineAnnotation_eff σ0 c hs hcore0.create hns0) rfl
-  · exact key _ (by decide) (armCharList_eff σ0 c hs hcore0.create) rfl
-  · exact key _ (by decide) (armStartCharList_eff σ0 c hs hcore0.create hns0) rfl
-  · exact key _ (by decide) (armByteList_eff σ0 c hs hcore0.create) rfl
-  · exact key _ (by decide) (armStartByteList_eff σ0 c hs hcore0.create hns0) rfl
-
-/-! ## the end-of-input sentinel -/
-
-theorem startToken_nul_full (cc : CharClass) (hcc : cc.Sane) (σ : Lexer) (ht : TreeOk σ.operatorTree)
-    (hat : σ.atEnd = true) :
-    (startToken cc σ '\x00').state = .noToken ∧ (startToken cc σ '\x00').currentCharacters = [] ∧
-    (startToken cc σ '\x00').result = σ.result := by
-  unfold TreeOk at ht
-  generalize hr : startToken cc σ '\x00' = r
-  unfold startToken at hr
-  simp [currentOperator, push, ht, isAsciiWhitespace, isIdentifierChar, hcc.nulNumeric, hcc.nulAlphanumeric, hat] at hr
-  subst hr; exact ⟨rfl, rfl, rfl⟩
-
-/-- how an arm treats the sentinel: it either keeps a non-empty unfinished token or ends the token before it -/
-def ArmEnd (σ : Lexer) (p : Lexer × Bool) : Prop :=
-  ArmFrame σ p.1 ∧ p.1.state ≠ .noToken ∧
-  ((p.2 = false ∧ p.1.currentCharacters ≠ []) ∨
-   (p.2 = true ∧ p.1.shouldCreate = true ∧ p.1.currentCharacters = σ.currentCharacters))
-
-theorem nul_not_ws : isAsciiWhitespace '\x00' = false := by decide
-
-macro "end_tac" f:ident hr:ident hcc:ident : tactic =>
-  `(tactic| (unfold $f at $hr:ident; (try simp only [] at $hr:ident); (repeat' split at $hr:ident);
-             all_goals (subst $hr:ident; simp_all [ArmEnd, push, armFrame_iff, nul_not_ws, isIdentifierChar, isIdentifier,
-                          CharClass.Sane.nulNumeric $hcc, CharClass.Sane.nulAlphanumeric $hcc])))
-
-macro "end_tac0" f:ident hr:ident : tactic =>
-  `(tactic| (unfold $f at $hr:ident; (try simp only [] at $hr:ident); (repeat' split at $hr:ident);
-             all_goals (subst $hr:ident; simp_all [ArmEnd, push, armFrame_iff, nul_not_ws])))
-
-@[simp] theorem pop_append_singleton (s : List Char) (c : Char) : pop (s ++ [c]) = s := by
-  simp [pop]
-
-theorem armOperator_end (cc : CharClass) (hcc : cc.Sane) (σ : Lexer) (hs : σ.state = .operator)
-    (hc : σ.shouldCreate = true) (hne : σ.currentCharacters ≠ []) : ArmEnd σ (armOperator cc σ '\x00') := by
-  generalize hr : armOperator cc σ '\x00' = r
-  end_tac armOperator hr hcc
-theorem armNumber_end (cc : CharClass) (hcc : cc.Sane) (σ : Lexer) (hs : σ.state = .number)
-    (hc : σ.shouldCreate = true) (hne : σ.currentCharacters ≠ []) : ArmEnd σ (armNumber cc σ '\x00') := by
-  generalize hr : armNumber cc σ '\x00' = r
-  end_tac armNumber hr hcc
-theorem armIdentifier_end (cc : CharClass) (hcc : cc.Sane) (σ : Lexer) (hs : σ.state = .identifier)
-    (hc : σ.shouldCreate = true) (hne : σ.currentCharacters ≠ []) : ArmEnd σ (armIdentifier cc σ '\x00') := by
-  generalize hr : armIdentifier cc σ '\x00' = r
-  end_tac armIdentifier hr hcc
-theorem armStartCharList_end (σ : Lexer) (hs : σ.state = .startCharList)
-    (hc : σ.shouldCreate = true) (hne : σ.currentCharacters ≠ []) (hat : σ.atEnd = true) :
-    ArmEnd σ (armStartCharList σ '\x00') := by
-  generalize hr : armStartCharList σ '\x00' = r
-  end_tac0 armStartCharList hr
-theorem armCharList_end (σ : Lexer) (hs : σ.state = .charList)
-    (hc : σ.shouldCreate = true) (hne : σ.currentCharacters ≠ []) : ArmEnd σ (armCharList σ '\x00') := by
-  generalize hr : armCharList σ '\x00' = r
-  end_tac0 armCharList hr
-theorem armStartByteList_end (σ : Lexer) (hs : σ.state = .startByteList)
-    (hc : σ.shouldCreate = true) (hne : σ.currentCharacters ≠ []) (hat : σ.atEnd = true) :
-    ArmEnd σ (armStartByteList σ '\x00') := by
-  generalize hr : armStartByteList σ '\x00' = r
-  end_tac0 armStartByteList hr
-theorem armByteList_end (σ : Lexer) (hs : σ.state = .byteList)
-    (hc : σ.shouldCreate = true) (hne : σ.currentCharacters ≠ []) : ArmEnd σ (armByteList σ '\x00') := by
-  generalize hr : armByteList σ '\x00' = r
-  end_tac0 armByteList hr
-theorem armSpaces_end (σ : Lexer) (hs : σ.state = .spaces)
-    (hc : σ.shouldCreate = true) (hne : σ.currentCharacters ≠ []) : ArmEnd σ (armSpaces σ '\x00') := by
-  generalize hr : armSpaces σ '\x00' = r
-  end_tac0 armSpaces hr
-theorem armSubexpression_end (σ : Lexer) (hs : σ.state = .subexpression)
-    (hc : σ.shouldCreate = true) (hne : σ.currentCharacters ≠ []) : ArmEnd σ (armSubexpression σ '\x00') := by
-  generalize hr : armSubexpression σ '\x00' = r
-  end_tac0 armSubexpression hr
-theorem armAnnotation_end (cc : CharClass) (hcc : cc.Sane) (σ : Lexer) (hs : σ.state = .annotation)
-    (hc : σ.shouldCreate = true) (hne : σ.currentCharacters ≠ []) : ArmEnd σ (armAnnotation cc σ '\x00') := by
-  generalize hr : armAnnotation cc σ '\x00' = r
-  end_tac armAnnotation hr hcc
-theorem armLineAnnotation_end (σ : Lexer) (hs : σ.state = .lineAnnotation)
-    (hc : σ.shouldCreate = true) (hne : σ.currentCharacters ≠ []) (hat : σ.atEnd = true) :
-    ArmEnd σ (armLineAnnotation σ '\x00') := by
-  generalize hr : armLineAnnotation σ '\x00' = r
-  end_tac0 armLineAnnotation hr
-
-theorem armFloat_end (cc : CharClass) (hcc : cc.Sane) (σ : Lexer) (hs : σ.state = .float)
-    (hc : σ.shouldCreate = true) :
-    ∃ σ1 sn, armFloat cc σ '\x00' = .ok (.cont σ1 none sn) ∧ ArmEnd σ (σ1, sn) := by
-  unfold armFloat
-  have h1 : (cc.isNumeric '\x00' || '\x00' == '_' || cc.isAlphanumeric '\x00') = false := by
-    simp [hcc.nulNumeric, hcc.nulAlphanumeric]
-  have h2 : (('\x00' : Char) == '.') = false := by decide
-  simp only [h1, Bool.false_eq_true, ↓reduceIte, h2, Bool.false_and]
-  exact ⟨_, _, rfl, by simp [ArmEnd, armFrame_iff, hs, hc]⟩
-
-/-- result of the lexer: what `lex` returns once the input is exhausted -/
-structure Final (toks : List LexerToken) (consumed : List Char) : Prop where
-  lossless : textsOf toks = consumed
-  nonempty : ∀ t ∈ toks, t.text ≠ []
-  tokPos : TokPosFrom [] toks
-
-/-- the rest of `process_char` on the sentinel -/
-theorem finishChar_end (cc : CharClass) (hcc : cc.Sane) (σ : Lexer) (consumed : List Char)
-    (toks : List LexerToken) (hcore : Core σ consumed toks) (hst : σ.state ≠ .noToken)
-    (hat : σ.atEnd = true) (htree : TreeOk σ.operatorTree)
-    (σ1 : Lexer) (sn : Bool) (heff : ArmEnd σ (σ1, sn)) :
-    (finishChar cc σ1 '\x00' none sn).1.result = .err ∨
-    ((finishChar cc σ1 '\x00' none sn).2 = none ∧ (finishChar cc σ1 '\x00' none sn).1.currentCharacters ≠ []) ∨
-    (∃ t, (finishChar cc σ1 '\x00' none sn).2 = some t ∧ (finishChar cc σ1 '\x00' none sn).1.state = .noToken ∧
-        Final (toks ++ [t]) consumed) := by
-  obtain ⟨hfr, hnt, hk⟩ := heff
-  simp only [] at hfr hk hnt
-  rcases hk with ⟨rfl, hch⟩ | ⟨rfl, hcr, hch⟩
-  · right; left
-    simp only [finishChar, Bool.false_eq_true, ↓reduceIte, bumpColumn_chars]
-    exact ⟨trivial, hch⟩
-  · simp only [finishChar, ↓reduceIte, pushNewToken]
-    have hne : (σ1.state != LexingState.noToken) = true := by simpa using hnt
-    simp only [hne, ↓reduceIte]
-    cases hcv : canCreateValidToken { σ1 with canFloat := !blocksFloat σ1.currentTokenType } with
-    | err =>
-      left
-      simp only [LexResult.isOk, Bool.false_eq_true, ↓reduceIte, hcr]
-      simp only [bumpColumn_result]
-      exact startToken_result_err cc _ _ rfl
-    | ok =>
-      simp only [LexResult.isOk, ↓reduceIte]
-      cases hty : σ1.currentTokenType with
-      | none => left; rfl
-      | some ty =>
-        right; right
-        simp only [hcr, ↓reduceIte]
-        refine ⟨_, rfl, ?_, ?_⟩
-        · rw [bumpColumn_state]
-          exact (startToken_nul_full cc hcc _ (by simpa [hfr.operatorTree] using htree)
-            (by simpa [hfr.atEnd] using hat)).1
-        · rw [hfr.tokenStartRow, hfr.tokenStartColumn, hch]
-          refine ⟨?_, ?_, TokPosFrom_emit hcore hst _ _⟩
-          · rw [textsOf_snoc]; exact hcore.lossless
-          · intro t ht
-            simp only [List.mem_append, List.mem_singleton] at ht
-            rcases ht with ht | rfl
-            · exact hcore.nonempty t ht
-            · exact hcore.tok hst
-
-/-- `process_char` on the end-of-input sentinel -/
-theorem processChar_end (cc : CharClass) (hcc : cc.Sane) (σ : Lexer) (consumed : List Char)
-    (toks : List LexerToken) (hcore : Core σ consumed toks) (hat : σ.atEnd = true) (htree : TreeOk σ.operatorTree)
-    (σ' : Lexer) (ot : Option LexerToken) (h : processChar cc σ '\x00' = .ok (σ', ot)) :
-    σ'.result = .err ∨
-    (ot = none ∧ (σ'.currentCharacters ≠ [] ∨ Final toks consumed)) ∨
-    (∃ t, ot = some t ∧ σ'.state = .noToken ∧ Final (toks ++ [t]) consumed) := by
-  unfold processChar at h
-  simp only [] at h
-  have hcore0 := Core_lexed (σ.charactersLexed + 1) hcore
-  generalize hσ0 : { σ with charactersLexed := σ.charactersLexed + 1 } = σ0 at h hcore0
-  have hat0 : σ0.atEnd = true := by subst hσ0; exact hat
-  have htree0 : TreeOk σ0.operatorTree := by subst hσ0; exact htree
-  clear hσ0 hcore hat htree
-  have key : ∀ p : Lexer × Bool, σ0.state ≠ .noToken → ArmEnd σ0 p →
-      stateStep cc σ0 '\x00' = Step.ofPair p →
-      σ'.result = .err ∨ (ot = none ∧ (σ'.currentCharacters ≠ [] ∨ Final toks consumed)) ∨
-      (∃ t, ot = some t ∧ σ'.state = .noToken ∧ Final (toks ++ [t]) consumed) := by
-    intro p hst heff hss
-    rw [hss] at h
-    simp only [Step.ofPair, Outcome.ok.injEq] at h
-    have := finishChar_end cc hcc σ0 consumed toks hcore0 hst hat0 htree0 p.1 p.2 heff
-    rw [h] at this
-    rcases this with h1 | ⟨h1, h2⟩ | h3
-    · exact Or.inl h1
-    · exact Or.inr (Or.inl ⟨h1, Or.inl h2⟩)
-    · exact Or.inr (Or.inr h3)
-  unfold stateStep at h key
-  cases hs : σ0.state <;> rw [hs] at h key <;> simp only [] at h key
-  case noToken =>
-    simp only [Step.ofPair, armNoToken, finishChar, Bool.false_eq_true, ↓reduceIte, Outcome.ok.injEq,
-      Prod.mk.injEq] at h
-    obtain ⟨rfl, rfl⟩ := h
-    right; left
-    refine ⟨rfl, Or.inr ⟨?_, hcore0.nonempty, hcore0.tokPos⟩⟩
-    have := hcore0.lossless
-    rw [hcore0.noTok hs, List.append_nil] at this
-    exact this
-  case float =>
-    have hnt : σ0.state ≠ .noToken := by rw [hs]; decide
-    obtain ⟨σ1, sn, hst, heff⟩ := armFloat_end cc hcc σ0 hs hcore0.create
-    rw [hst] at h
-    simp only [Outcome.ok.injEq] at h
-    have := finishChar_end cc hcc σ0 consumed toks hcore0 hnt hat0 htree0 σ1 sn heff
-    rw [h] at this
-    rcases this with h1 | ⟨h1, h2⟩ | h3
-    · exact Or.inl h1
-    · exact Or.inr (Or.inl ⟨h1, Or.inl h2⟩)
-    · exact Or.inr (Or.inr h3)
-  all_goals (have hnt : σ0.state ≠ .noToken := by rw [hs]; decide)
-  · exact key _ (by decide) (armOperator_end cc hcc σ0 hs hcore0.create (hcore0.tok hnt)) rfl
-  · exact key _ (by decide) (armSpaces_end σ0 hs hcore0.create (hcore0.tok hnt)) rfl
-  · exact key _ (by decide) (armSubexpression_end σ0 hs hcore0.create (hcore0.tok hnt)) rfl
-  · exact key _ (by decide) (armNumber_end cc hcc σ0 hs hcore0.create (hcore0.tok hnt)) rfl
-  · exact key _ (by decide) (armIdentifier_end cc hcc σ0 hs hcore0.create (hcore0.tok hnt)) rfl
-  · exact key _ (by decide) (armAnnotation_end cc hcc σ0 hs hcore0.create (hcore0.tok hnt)) rfl
-  · exact key _ (by decide) (armLineAnnotation_end σ0 hs hcore0.create (hcore0.tok hnt) hat0) rfl
-  · exact key _ (by decide) (armCharList_end σ0 hs hcore0.create (hcore0.tok hnt)) rfl
-  · exact key _ (by decide) (armStartCharList_end σ0 hs hcore0.create (hcore0.tok hnt) hat0) rfl
-  · exact key _ (by decide) (armByteList_end σ0 hs hcore0.create (hcore0.tok hnt)) rfl
-  · exact key _ (by decide) (armStartByteList_end σ0 hs hcore0.create (hcore0.tok hnt) hat0) rfl
-
-/-! ## the loop -/
-
-theorem lexFinish_ok {σ σ' : Lexer} {toks toks' : List LexerToken} (h : lexFinish σ toks = .ok (toks', σ')) :
-    toks' = toks ∧ σ.result = .ok := by
-  unfold lexFinish at h
-  cases hr : σ.result <;> rw [hr] at h <;> simp at h
-  exact ⟨h.1.symm, rfl⟩
-
-theorem isErr_of_ok {σ : Lexer} (h : σ.result = .ok) : σ.result.isErr = false := by rw [h]; rfl
-
-theorem Core_atEnd {σ : Lexer} {consumed : List Char} {toks : List LexerToken} (b : Bool)
-    (h : Core σ consumed toks) : Core { σ with atEnd := b } consumed toks :=
-  ⟨h.1, h.2, h.3, h.4, h.5, h.6, h.7, h.8, h.9, h.10⟩
-
-/-- second sentinel: in `NoToken` nothing more is emitted -/
-theorem lexEnd_second (cc : CharClass) (fuel : Nat) (σ σ' : Lexer) (toks toks' : List LexerToken)
-    (hs : σ.state = .noToken) (h : lexEnd cc (fuel + 1) σ toks = .ok (toks', σ')) : toks' = toks := by
-  simp only [lexEnd] at h
-  split at h
-  · exact (lexFinish_ok h).1
-  · cases hp : processChar cc { σ with atEnd := true } '\x00' with
-    | ok r =>
-      obtain ⟨σ1, ot⟩ := r
-      have hnone := processChar_noToken_none cc _ _ _ _ (by simpa using hs) hp
-      subst hnone
-      rw [hp] at h
-      simp only [] at h
-      exact (lexFinish_ok h).1
-    | err e => rw [hp] at h; cases h
-    | panic m => rw [hp] at h; cases h
-    | fuelOut => rw [hp] at h; cases h
-
-theorem lexEnd_final (cc : CharClass) (hcc : cc.Sane) (fuel : Nat) (σ σ' : Lexer) (consumed : List Char)
-    (toks toks' : List LexerToken) (hcore : Core σ consumed toks) (htree : TreeOk σ.operatorTree)
-    (h : lexEnd cc (fuel + 2) σ toks = .ok (toks', σ')) : Final toks' consumed := by
-  rw [show fuel + 2 = (fuel + 1) + 1 from rfl, lexEnd] at h
-  simp only [isErr_of_ok hcore.ok, Bool.false_eq_true, ↓reduceIte] at h
-  cases hp : processChar cc { σ with atEnd := true } '\x00' with
-  | ok r =>
-    obtain ⟨σ1, ot⟩ := r
-    rw [hp] at h
-    have hend := processChar_end cc hcc _ consumed toks (Core_atEnd true hcore) rfl (by simpa using htree) σ1 ot hp
-    cases ot with
-    | none =>
-      simp only [] at h
-      obtain ⟨htoks, hres⟩ := lexFinish_ok h
-      subst htoks
-      rcases hend with herr | ⟨_, hne | hfin⟩ | ⟨t, ht, _⟩
-      · -- an error was recorded: lexFinish cannot succeed
-        exfalso
-        split at hres
-        · simp at hres
-        · rw [herr] at hres; cases hres
-      · exfalso
-        have hlen : utf8Len σ1.currentCharacters > 0 := by
-          cases hc : σ1.currentCharacters with
-          | nil => exact absurd hc hne
-          | cons x r => have := Char.utf8Size_pos x; simp [utf8Len]; omega
-        split at hres
-        · simp at hres
-        · rename_i hcond
-          cases hr1 : σ1.result with
-          | ok => simp [hlen, hr1, LexResult.isOk] at hcond
-          | err => rw [hr1] at hres; cases hres
-      · exact hfin
-      · cases ht
-    | some t =>
-      simp only [] at h
-      rcases hend with herr | ⟨hnone, _⟩ | ⟨t', ht, hs1, hfin⟩
-      · rw [herr] at h; cases h
-      · cases hnone
-      · cases ht
-        cases hr1 : σ1.result with
-        | err => rw [hr1] at h; cases h
-        | ok =>
-          rw [hr1] at h
-          simp only [] at h
-          have := lexEnd_second cc fuel σ1 σ' (toks ++ [t]) toks' hs1 h
-          subst this
-          exact hfin
-  | err e => rw [hp] at h; cases h
-  | panic m => rw [hp] at h; cases h
-  | fuelOut => rw [hp] at h; cases h
-
-theorem lexEnd_err (cc : CharClass) (fuel : Nat) (σ : Lexer) (toks : List LexerToken) (h : σ.result = .err) :
-    lexEnd cc (fuel + 1) σ toks = .err .syntax := by
-  simp [lexEnd, h, LexResult.isErr, lexFinish]
-
-theorem lexLoop_err (cc : CharClass) (input : List Char) (σ : Lexer) (toks : List LexerToken)
-    (h : σ.result = .err) : lexLoop cc input σ toks = .err .syntax := by
-  cases input with
-  | nil => simp only [lexLoop, endFuel]; exact lexEnd_err cc 3 σ toks h
-  | cons c rest => simp [lexLoop, h, LexResult.isErr, lexFinish]
-
-/-- the main invariant theorem: if `lex` succeeds from a state satisfying the invariant, the result is `Final` -/
-theorem lexLoop_final (cc : CharClass) (hcc : cc.Sane2) :
-    ∀ (input : List Char) (σ σ' : Lexer) (consumed : List Char) (toks toks' : List LexerToken),
-      Core σ consumed toks → Inv σ → TreeOk σ.operatorTree → σ.atEnd = false →
-      lexLoop cc input σ toks = .ok (toks', σ') → Final toks' (consumed ++ input)
-  | [], σ, σ', consumed, toks, toks', hcore, _, htree, _, h => by
-    simp only [lexLoop, endFuel] at h
-    rw [List.append_nil]
-    exact lexEnd_final cc hcc.toSane 2 σ σ' consumed toks toks' hcore htree h
-  | c :: rest, σ, σ', consumed, toks, toks', hcore, hinv, htree, hat, h => by
-    simp only [lexLoop, isErr_of_ok hcore.ok, Bool.false_eq_true, ↓reduceIte] at h
-    obtain ⟨σ1, ot, hp, hinv1⟩ := processChar_ok cc hcc.toSane σ c hinv
-    have hf := processChar_frame cc _ _ _ _ hp
-    have hns : ¬Sentinel σ c := fun hs => by have := hs.2; rw [hat] at this; cases this
-    have hstep := processChar_core cc hcc σ c consumed toks hcore hinv hns σ1 ot hp
-    rw [hp] at h
-    have hcons : consumed ++ c :: rest = (consumed ++ [c]) ++ rest := by simp
-    rw [hcons]
-    cases ot with
-    | none =>
-      simp only [] at h
-      rcases hstep with herr | hcore1
-      · rw [lexLoop_err cc rest σ1 toks herr] at h; cases h
-      · exact lexLoop_final cc hcc rest σ1 σ' _ toks toks' (by simpa using hcore1) hinv1
-          (by rw [hf.1]; exact htree) (by rw [hf.2.1]; exact hat) h
-    | some t =>
-      simp only [] at h
-      rcases hstep with herr | hcore1
-      · rw [herr] at h; cases h
-      · rw [hcore1.ok] at h
-        simp only [] at h
-        exact lexLoop_final cc hcc rest σ1 σ' _ (toks ++ [t]) toks' (by simpa using hcore1) hinv1
-          (by rw [hf.1]; exact htree) (by rw [hf.2.1]; exact hat) h
-
-theorem Core_init (t : LexerOperatorNode) : Core (Lexer.init t) [] [] :=
-  ⟨rfl, by simp, fun _ => rfl, fun h => absurd rfl h, trivial, fun h => absurd rfl h, rfl,
-   ⟨fun h => by simp [Lexer.init] at h, fun h => by simp [Lexer.init] at h⟩, rfl, rfl⟩
-
-/-- `lex` succeeds only with a lossless, non-empty, correctly positioned token list -/
-theorem lex_final (cc : CharClass) (hcc : cc.Sane2) (s : List Char) (toks : List LexerToken)
-    (h : lex cc s = .ok toks) : Final toks s := by
-  obtain ⟨t, hnew, ht⟩ := new_ok
-  unfold lex lexFull at h
-  rw [hnew] at h
-  simp only [] at h
-  cases hl : lexLoop cc s (Lexer.init t) [] with
-  | ok r =>
-    obtain ⟨toks', σ'⟩ := r
-    rw [hl] at h
-    simp only [Outcome.ok.injEq] at h
-    subst h
-    have := lexLoop_final cc hcc s (Lexer.init t) σ' [] [] toks' (Core_init t)
-      (fun h => by simp [Lexer.init] at h) ht rfl hl
-    simpa using this
-  | err e => rw [hl] at h; cases h
-  | panic m => rw [hl] at h; cases h
-  | fuelOut => rw [hl] at h; cases h
-
-/-! ## the Rust tables; indexed form of the position statement -/
-
-/-- the Unicode predicates of the Rust std, from the generated range tables -/
-def rustTables : CharClass := ⟨Garnish.Gen.CharRanges.isAlphanumeric, Garnish.Gen.CharRanges.isNumeric⟩
-
-theorem rustTables_sane2 : rustTables.Sane2 where
-  nulNumeric := by decide +kernel
-  nulAlphanumeric := by decide +kernel
-  nlNumeric := by decide +kernel
-  nlAlphanumeric := by decide +kernel
-  dotNumeric := by decide +kernel
-  dotAlphanumeric := by decide +kernel
-
-theorem TokPosFrom_get : ∀ (p : List Char) (toks : List LexerToken), TokPosFrom p toks →
-    ∀ (i : Nat) (h : i < toks.length), (toks[i].row, toks[i].column) = posOf (p ++ textsOf (toks.take i))
-  | p, [], _, i, h => by simp at h
-  | p, t :: ts, hp, 0, _ => by simpa [TokPosFrom] using hp.1
-  | p, t :: ts, hp, i + 1, h => by
-    have := TokPosFrom_get (p ++ t.text) ts hp.2 i (by simpa using h)
-    simpa [textsOf, List.append_assoc] using this
-
-theorem textsOf_take_prefix (toks : List LexerToken) (s : List Char) (h : textsOf toks = s) (i : Nat) :
-    textsOf (toks.take i) = s.take (textsOf (toks.take i)).length := by
-  have : s = textsOf (toks.take i) ++ textsOf (toks.drop i) := by
-    rw [← h]
-    simp only [textsOf, ← List.flatten_append, ← List.map_append, List.take_append_drop]
-  rw [this, List.take_left']
-  rfl
-
-/-! ## blank lines -/
-
-/-- `lex`'s loop on a prefix of the input (the same steps as `lexLoop`, without the end-of-input phase) -/
-def runChars (cc : CharClass) : List Char → Lexer → List LexerToken → Outcome (Lexer × List LexerToken)
-  | [], σ, toks => .ok (σ, toks)
-  | c :: rest, σ, toks =>
-    if σ.result.isErr then .err .syntax else
-    match processChar cc σ c with
-    | .ok (σ1, some t) =>
-      match σ1.result with
-      | .err => .err .syntax
-      | .ok => runChars cc rest σ1 (toks ++ [t])
-    | .ok (σ1, none) => runChars cc rest σ1 toks
-    | .err e => .err e
-    | .panic s => .panic s
-    | .fuelOut => .fuelOut
-
-theorem lexLoop_append (cc : CharClass) : ∀ (x rest : List Char) (σ σ1 : Lexer) (toks toks1 : List LexerToken),
-    runChars cc x σ toks = .ok (σ1, toks1) → lexLoop cc (x ++ rest) σ toks = lexLoop cc rest σ1 toks1
-  | [], rest, σ, σ1, toks, toks1, h => by
-    simp only [runChars, Outcome.ok.injEq, Prod.mk.injEq] at h
-    obtain ⟨rfl, rfl⟩ := h; rfl
-  | c :: x, rest, σ, σ1, toks, toks1, h => by
-    simp only [runChars] at h
-    simp only [List.cons_append, lexLoop]
-    split at h
-    · cases h
-    · rename_i hE
-      simp only [hE, Bool.false_eq_true, ↓reduceIte]
-      cases hp : processChar cc σ c with
-      | ok r =>
-        obtain ⟨σ2, ot⟩ := r
-        rw [hp] at h
-        cases ot with
-        | none => exact lexLoop_append cc x rest σ2 σ1 toks toks1 h
-        | some t =>
-          simp only [] at h ⊢
-          cases hr : σ2.result with
-          | err => rw [hr] at h; cases h
-          | ok => rw [hr] at h; exact lexLoop_append cc x rest σ2 σ1 _ toks1 h
-      | err e => rw [hp] at h; cases h
-      | panic m => rw [hp] at h; cases h
-      | fuelOut => rw [hp] at h; cases h
-
-theorem runChars_append (cc : CharClass) : ∀ (x y : List Char) (σ σ1 : Lexer) (toks toks1 : List LexerToken),
-    runChars cc x σ toks = .ok (σ1, toks1) → runChars cc (x ++ y) σ toks = runChars cc y σ1 toks1
-  | [], y, σ, σ1, toks, toks1, h => by
-    simp only [runChars, Outcome.ok.injEq, Prod.mk.injEq] at h
-    obtain ⟨rfl, rfl⟩ := h; rfl
-  | c :: x, y, σ, σ1, toks, toks1, h => by
-    simp only [runChars] at h
-    simp only [List.cons_append, runChars]
-    split at h
-    · cases h
-    · rename_i hE
-      simp only [hE, Bool.false_eq_true, ↓reduceIte]
-      cases hp : processChar cc σ c with
-      | ok r =>
-        obtain ⟨σ2, ot⟩ := r
-        rw [hp] at h
-        cases ot with
-        | none => exact runChars_append cc x y σ2 σ1 toks toks1 h
-        | some t =>
-          simp only [] at h ⊢
-          cases hr : σ2.result with
-          | err => rw [hr] at h; cases h
-          | ok => rw [hr] at h; exact runChars_append cc x y σ2 σ1 _ toks1 h
-      | err e => rw [hp] at h; cases h
-      | panic m => rw [hp] at h; cases h
-      | fuelOut => rw [hp] at h; cases h
-
-/-- in a run of horizontal whitespace, no newline seen yet -/
-structure WsA (σ : Lexer) (cs : List Char) : Prop where
-  state : σ.state = .spaces
-  chars : σ.currentCharacters = cs
-  couldBe : σ.couldBeSubExpression = false
-  create : σ.shouldCreate = true
-  ok : σ.result = .ok
-
-/-- directly after the first newline of a whitespace run -/
-structure WsB (σ : Lexer) (cs : List Char) : Prop where
-  state : σ.state = .subexpression
-  chars : σ.currentCharacters = cs
-  create : σ.shouldCreate = true
-  ok : σ.result = .ok
-
-/-- spaces/tabs after the first newline of a whitespace run -/
-structure WsC (σ : Lexer) (cs : List Char) : Prop where
-  state : σ.state = .spaces
-  chars : σ.currentCharacters = cs
-  couldBe : σ.couldBeSubExpression = true
-  create : σ.shouldCreate = true
-  ok : σ.result = .ok
-
-def IsBlank (c : Char) : Prop := c = ' ' ∨ c = '\t'
-
-theorem wsA_blank (cc : CharClass) (σ : Lexer) (cs : List Char) (c : Char) (h : WsA σ cs) (hc : IsBlank c) :
-    ∃ σ1, processChar cc σ c = .ok (σ1, none) ∧ WsA σ1 (cs ++ [c]) := by
-  obtain ⟨h1, h2, h3, h4, h5⟩ := h
-  rcases hc with rfl | rfl
-  all_goals
-    simp only [processChar, stateStep, h1, Step.ofPair, armSpaces, finishChar]
-    refine ⟨_, rfl, ?_⟩
-    constructor <;> simp [bumpColumn, push, h1, h2, h3, h4, h5]
-
-theorem wsA_newline (cc : CharClass) (σ : Lexer) (cs : List Char) (h : WsA σ cs) :
-    ∃ σ1, processChar cc σ '\n' = .ok (σ1, none) ∧ WsB σ1 (cs ++ ['\n']) := by
-  obtain ⟨h1, h2, h3, h4, h5⟩ := h
-  simp only [processChar, stateStep, h1, Step.ofPair, armSpaces, finishChar, h3]
-  refine ⟨_, rfl, ?_⟩
-  constructor <;> simp [bumpColumn, push, h1, h2, h3, h4, h5]
-
-theorem wsB_blank (cc : CharClass) (σ : Lexer) (cs : List Char) (c : Char) (h : WsB σ cs) (hc : IsBlank c) :
-    ∃ σ1, processChar cc σ c = .ok (σ1, none) ∧ WsC σ1 (cs ++ [c]) := by
-  obtain ⟨h1, h2, h4, h5⟩ := h
-  rcases hc with rfl | rfl
-  all_goals
-    simp only [processChar, stateStep, h1, Step.ofPair, armSubexpression, finishChar]
-    refine ⟨_, rfl, ?_⟩
-    constructor <;> simp [bumpColumn, push, h1, h2, h4, h5]
-
-theorem wsC_blank (cc : CharClass) (σ : Lexer) (cs : List Char) (c : Char) (h : WsC σ cs) (hc : IsBlank c) :
-    ∃ σ1, processChar cc σ c = .ok (σ1, none) ∧ WsC σ1 (cs ++ [c]) := by
-  obtain ⟨h1, h2, h3, h4, h5⟩ := h
-  rcases hc with rfl | rfl
-  all_goals
-    simp only [processChar, stateStep, h1, Step.ofPair, armSpaces, finishChar]
-    refine ⟨_, rfl, ?_⟩
-    constructor <;> simp [bumpColumn, push, h1, h2, h3, h4, h5]
-
-/-- the second newline directly after the first: one Subexpression token with everything (patch 2) -/
-theorem wsB_newline (cc : CharClass) (σ : Lexer) (cs : List Char) (h : WsB σ cs) :
-    ∃ σ1 t, processChar cc σ '\n' = .ok (σ1, some t) ∧ t.tokenType = .subexpression ∧ t.text = cs ++ ['\n'] ∧
-      σ1.result = .ok := by
-  obtain ⟨h1, h2, h4, h5⟩ := h
-  have hnl : (isAsciiWhitespace '\n' && !('\n' == '\t' || '\n' == ' ')) = true := by decide
-  simp only [processChar, stateStep, h1, Step.ofPair, armSubexpression, finishChar, pushNewToken,
-    canCreateValidToken, hnl, ↓reduceIte]
-  refine ⟨_, _, rfl, ?_⟩
-  simp [bumpColumn, push, h1, h2, h4, h5]
-
-/-- the second newline after trailing spaces/tabs: one Subexpression token with everything -/
-theorem wsC_newline (cc : CharClass) (σ : Lexer) (cs : List Char) (h : WsC σ cs) :
-    ∃ σ1 t, processChar cc σ '\n' = .ok (σ1, some t) ∧ t.tokenType = .subexpression ∧ t.text = cs ++ ['\n'] ∧
-      σ1.result = .ok := by
-  obtain ⟨h1, h2, h3, h4, h5⟩ := h
-  simp only [processChar, stateStep, h1, Step.ofPair, armSpaces, finishChar, pushNewToken,
-    canCreateValidToken, h3]
-  refine ⟨_, _, rfl, ?_⟩
-  simp [bumpColumn, push, h1, h2, h3, h4, h5]
-
-theorem runChars_none (cc : CharClass) (c : Char) (rest : List Char) (σ σ1 : Lexer) (toks : List LexerToken)
-    (hok : σ.result = .ok) (hp : processChar cc σ c = .ok (σ1, none)) :
-    runChars cc (c :: rest) σ toks = runChars cc rest σ1 toks := by
-  simp [runChars, isErr_of_ok hok, hp]
-
-theorem runChars_some (cc : CharClass) (c : Char) (rest : List Char) (σ σ1 : Lexer) (toks : List LexerToken)
-    (t : LexerToken) (hok : σ.result = .ok) (hp : processChar cc σ c = .ok (σ1, some t)) (hok1 : σ1.result = .ok) :
-    runChars cc (c :: rest) σ toks = runChars cc rest σ1 (toks ++ [t]) := by
-  simp [runChars, isErr_of_ok hok, hp, hok1]
-
-theorem runA (cc : CharClass) : ∀ (ws : List Char) (σ : Lexer) (cs : List Char) (toks : List LexerToken),
-    WsA σ cs → (∀ c ∈ ws, IsBlank c) → ∃ σ1, runChars cc ws σ toks = .ok (σ1, toks) ∧ WsA σ1 (cs ++ ws)
-  | [], σ, cs, toks, h, _ => ⟨σ, rfl, by simpa using h⟩
-  | c :: ws, σ, cs, toks, h, hb => by
-    obtain ⟨σ1, hp, h1⟩ := wsA_blank cc σ cs c h (hb c (by simp))
-    obtain ⟨σ2, hr, h2⟩ := runA cc ws σ1 (cs ++ [c]) toks h1 (fun x hx => hb x (by simp [hx]))
-    exact ⟨σ2, by rw [runChars_none cc c ws σ σ1 toks h.ok hp]; exact hr, by simpa using h2⟩
-
-theorem runC (cc : CharClass) : ∀ (ws : List Char) (σ : Lexer) (cs : List Char) (toks : List LexerToken),
-    WsC σ cs → (∀ c ∈ ws, IsBlank c) → ∃ σ1, runChars cc ws σ toks = .ok (σ1, toks) ∧ WsC σ1 (cs ++ ws)
-  | [], σ, cs, toks, h, _ => ⟨σ, rfl, by simpa using h⟩
-  | c :: ws, σ, cs, toks, h, hb => by
-    obtain ⟨σ1, hp, h1⟩ := wsC_blank cc σ cs c h (hb c (by simp))
-    obtain ⟨σ2, hr, h2⟩ := runC cc ws σ1 (cs ++ [c]) toks h1 (fun x hx => hb x (by simp [hx]))
-    exact ⟨σ2, by rw [runChars_none cc c ws σ σ1 toks h.ok hp]; exact hr, by simpa using h2⟩
-
-/-- from directly after the first newline: `ws'` then the second newline give one Subexpression token -/
-theorem runB_blank_line (cc : CharClass) (ws' : List Char) (σ : Lexer) (cs : List Char) (toks : List LexerToken)
-    (h : WsB σ cs) (hb : ∀ c ∈ ws', IsBlank c) :
-    ∃ σ1 t, runChars cc (ws' ++ ['\n']) σ toks = .ok (σ1, toks ++ [t]) ∧ t.tokenType = .subexpression ∧
-      t.text = cs ++ ws' ++ ['\n'] := by
-  cases ws' with
-  | nil =>
-    obtain ⟨σ1, t, hp, hty, htx, hok1⟩ := wsB_newline cc σ cs h
-    refine ⟨σ1, t, ?_, hty, by simpa using htx⟩
-    rw [List.nil_append, runChars_some cc '\n' [] σ σ1 toks t h.ok hp hok1]; rfl
-  | cons c r =>
-    obtain ⟨σ1, hp, h1⟩ := wsB_blank cc σ cs c h (hb c (by simp))
-    obtain ⟨σ2, hr, h2⟩ := runC cc r σ1 (cs ++ [c]) toks h1 (fun x hx => hb x (by simp [hx]))
-    obtain ⟨σ3, t, hp3, hty, htx, hok3⟩ := wsC_newline cc σ2 _ h2
-    refine ⟨σ3, t, ?_, hty, by simpa using htx⟩
-    rw [List.cons_append, runChars_none cc c _ σ σ1 toks h.ok hp, runChars_append cc r ['\n'] σ1 σ2 toks toks hr,
-      runChars_some cc '\n' [] σ2 σ3 toks t h2.ok hp3 hok3]
-    rfl
-
-/-- a string after which whitespace starts a fresh whitespace token: running the lexer over `a` followed by a
-space/tab (resp. a newline) emits tokens spelling `a` and leaves the lexer at the start of a whitespace run -/
-structure Boundary (cc : CharClass) (σ0 : Lexer) (a : List Char) : Prop where
-  blank : ∀ c, IsBlank c → ∃ σ toks, runChars cc (a ++ [c]) σ0 [] = .ok (σ, toks) ∧ WsA σ [c] ∧ textsOf toks = a
-  newline : ∃ σ toks, runChars cc (a ++ ['\n']) σ0 [] = .ok (σ, toks) ∧ WsB σ ['\n'] ∧ textsOf toks = a
-
-/-- the whole whitespace run with a blank line becomes one Subexpression token -/
-theorem run_blank_line (cc : CharClass) (σ0 : Lexer) (a ws ws' : List Char) (hbd : Boundary cc σ0 a)
-    (hws : ∀ c ∈ ws, IsBlank c) (hws' : ∀ c ∈ ws', IsBlank c) :
-    ∃ σ1 toks t, runChars cc (a ++ ws ++ ['\n'] ++ ws' ++ ['\n']) σ0 [] = .ok (σ1, toks ++ [t]) ∧
-      textsOf toks = a ∧ t.tokenType = .subexpression ∧ t.text = ws ++ ['\n'] ++ ws' ++ ['\n'] := by
-  cases ws with
-  | nil =>
-    obtain ⟨σ, toks, hr, hB, htx⟩ := hbd.newline
-    obtain ⟨σ1, t, hr1, hty, htxt⟩ := runB_blank_line cc ws' σ ['\n'] toks hB hws'
-    refine ⟨σ1, toks, t, ?_, htx, hty, by simpa using htxt⟩
-    have := runChars_append cc (a ++ ['\n']) (ws' ++ ['\n']) σ0 σ [] toks hr
-    simpa [List.append_assoc] using this.trans hr1
-  | cons c r =>
-    obtain ⟨σ, toks, hr, hA, htx⟩ := hbd.blank c (hws c (by simp))
-    obtain ⟨σ2, hr2, hA2⟩ := runA cc r σ [c] toks hA (fun x hx => hws x (by simp [hx]))
-    obtain ⟨σ3, hp3, hB3⟩ := wsA_newline cc σ2 _ hA2
-    obtain ⟨σ4, t, hr4, hty, htxt⟩ := runB_blank_line cc ws' σ3 _ toks hB3 hws'
-    refine ⟨σ4, toks, t, ?_, htx, hty, by simpa using htxt⟩
-    have e1 := runChars_append cc (a ++ [c]) (r ++ ['\n'] ++ ws' ++ ['\n']) σ0 σ [] toks hr
-    have e2 := runChars_append cc r (['\n'] ++ ws' ++ ['\n']) σ σ2 toks toks hr2
-    have e3 : runChars cc (['\n'] ++ ws' ++ ['\n']) σ2 toks = runChars cc (ws' ++ ['\n']) σ3 toks := by
-      simpa using runChars_none cc '\n' (ws' ++ ['\n']) σ2 σ3 toks hA2.ok hp3
-    have : a ++ c :: r ++ ['\n'] ++ ws' ++ ['\n'] = (a ++ [c]) ++ (r ++ ['\n'] ++ ws' ++ ['\n']) := by simp
-    rw [this, e1]
-    have : r ++ ['\n'] ++ ws' ++ ['\n'] = r ++ (['\n'] ++ ws' ++ ['\n']) := by simp
-    rw [this, e2, e3, hr4]
-
-/-- `lex`'s loop only appends tokens -/
-theorem lexEnd_prefix (cc : CharClass) : ∀ (fuel : Nat) (σ σ' : Lexer) (toks toks' : List LexerToken),
-    lexEnd cc fuel σ toks = .ok (toks', σ') → ∃ post, toks' = toks ++ post
-  | 0, _, _, _, _, h => by simp [lexEnd] at h
-  | fuel + 1, σ, σ', toks, toks', h => by
-    simp only [lexEnd] at h
-    split at h
-    · exact ⟨[], by simpa using (lexFinish_ok h).1⟩
-    · cases hp : processChar cc { σ with atEnd := true } '\x00' with
-      | ok r =>
-        obtain ⟨σ1, ot⟩ := r
-        rw [hp] at h
-        cases ot with
-        | none => exact ⟨[], by simpa using (lexFinish_ok h).1⟩
-        | some t =>
-          simp only [] at h
-          cases hr : σ1.result with
-          | err => rw [hr] at h; cases h
-          | ok =>
-            rw [hr] at h
-            obtain ⟨post, hpost⟩ := lexEnd_prefix cc fuel σ1 σ' _ toks' h
-            exact ⟨t :: post, by simpa using hpost⟩
-      | err e => rw [hp] at h; cases h
-      | panic m => rw [hp] at h; cases h
-      | fuelOut => rw [hp] at h; cases h
-
-theorem lexLoop_prefix (cc : CharClass) : ∀ (input : List Char) (σ σ' : Lexer) (toks toks' : List LexerToken),
-    lexLoop cc input σ toks = .ok (toks', σ') → ∃ post, toks' = toks ++ post
-  | [], σ, σ', toks, toks', h => lexEnd_prefix cc endFuel σ σ' toks toks' (by simpa [lexLoop] using h)
-  | c :: rest, σ, σ', toks, toks', h => by
-    simp only [lexLoop] at h
-    split at h
-    · exact ⟨[], by simpa using (lexFinish_ok h).1⟩
-    · cases hp : processChar cc σ c with
-      | ok r =>
-        obtain ⟨σ1, ot⟩ := r
-        rw [hp] at h
-        cases ot with
-        | none => exact lexLoop_prefix cc rest σ1 σ' toks toks' h
-        | some t =>
-          simp only [] at h
-          cases hr : σ1.result with
-          | err => rw [hr] at h; cases h
-          | ok =>
-            rw [hr] at h
-            obtain ⟨post, hpost⟩ := lexLoop_prefix cc rest σ1 σ' _ toks' h
-            exact ⟨t :: post, by simpa using hpost⟩
-      | err e => rw [hp] at h; cases h
-      | panic m => rw [hp] at h; cases h
-      | fuelOut => rw [hp] at h; cases h
-
-/-- the operator tree of `Lexer::new` -/
-def theTree : LexerOperatorNode :=
-  match createOperatorTree Garnish.Gen.LexTables.operatorChars with
-  | .ok t => t
-  | _ => .mk '\x00' none []
-
-theorem new_eq : Lexer.new = .ok (Lexer.init theTree) := by
-  have h := operatorTree_nulFree
-  unfold Lexer.new theTree
-  cases hc : createOperatorTree Garnish.Gen.LexTables.operatorChars with
-  | ok t => rfl
-  | err e => rw [hc] at h; cases h
-  | panic m => rw [hc] at h; cases h
-  | fuelOut => rw [hc] at h; cases h
-
-/-- blank-line theorem in terms of `lex` -/
-theorem lex_blank_line (cc : CharClass) (a ws ws' b : List Char)
-    (hbd : Boundary cc (Lexer.init theTree) a)
-    (hws : ∀ c ∈ ws, IsBlank c) (hws' : ∀ c ∈ ws', IsBlank c) (toks : List LexerToken)
-    (h : lex cc (a ++ ws ++ ['\n'] ++ ws' ++ ['\n'] ++ b) = .ok toks) :
-    ∃ pre t post, toks = pre ++ [t] ++ post ∧ textsOf pre = a ∧ t.tokenType = .subexpression ∧
-      t.text = ws ++ ['\n'] ++ ws' ++ ['\n'] := by
-  unfold lex lexFull at h
-  rw [new_eq] at h
-  simp only [] at h
-  obtain ⟨σ1, pre, t, hrun, hpre, hty, htx⟩ := run_blank_line cc (Lexer.init theTree) a ws ws' hbd hws hws'
-  rw [lexLoop_append cc _ b (Lexer.init theTree) σ1 [] (pre ++ [t]) hrun] at h
-  cases hl : lexLoop cc b σ1 (pre ++ [t]) with
-  | ok r =>
-    obtain ⟨toks', σ'⟩ := r
-    rw [hl] at h
-    simp only [Outcome.ok.injEq] at h
-    subst h
-    obtain ⟨post, hpost⟩ := lexLoop_prefix cc b σ1 σ' _ _ hl
-    exact ⟨pre, t, post, hpost, hpre, hty, htx⟩
-  | err e => rw [hl] at h; cases h
-  | panic m => rw [hl] at h; cases h
-  | fuelOut => rw [hl] at h; cases h
-
-/-! ### the family of identifier-like strings satisfies `Boundary` -/
-
-/-- a letter: alphanumeric, not numeric, not whitespace, not `_`/`:`, not the first character of an operator -/
-structure Letter (cc : CharClass) (ch : Char) : Prop where
-  alnum : cc.isAlphanumeric ch = true
-  notNumeric : cc.isNumeric ch = false
-  notWs : isAsciiWhitespace ch = false
-  notUnderscore : ch ≠ '_'
-  notColon : ch ≠ ':'
-  notOperator : walkOperator theTree [ch] = none
-
-/-- spaces, tabs and newlines are not alphanumeric -/
-structure CharClass.SaneWs (cc : CharClass) : Prop where
-  space : cc.isAlphanumeric ' ' = false
-  tab : cc.isAlphanumeric '\t' = false
-  newline : cc.isAlphanumeric '\n' = false
-
-/-- an identifier under construction -/
-structure InIdent (σ : Lexer) (cs : List Char) : Prop where
-  state : σ.state = .identifier
-  chars : σ.currentCharacters = cs
-  type : σ.currentTokenType = some .identifier
-  create : σ.shouldCreate = true
-  ok : σ.result = .ok
-  tree : σ.operatorTree = theTree
-
-theorem treeWs : (walkOperator theTree [' ']).isNone = true ∧ (walkOperator theTree ['\t']).isNone = true ∧
-    (walkOperator theTree ['\n']).isNone = true := by decide
-
-theorem letter_not_blank {cc : CharClass} {ch : Char} (h : Letter cc ch) :
-    ch ≠ ' ' ∧ ch ≠ '\t' ∧ ch ≠ '\r' := by
-  have := h.notWs
-  refine ⟨?_, ?_, ?_⟩ <;> (rintro rfl; simp [isAsciiWhitespace] at this)
-
-theorem startToken_letter (cc : CharClass) (σ : Lexer) (c : Char) (hl : Letter cc c)
-    (htr : σ.operatorTree = theTree) :
-    startToken cc σ c = { σ with currentCharacters := [c], currentTokenType := some .identifier, tokenStartRow := σ.textRow, tokenStartColumn := σ.textColumn, state := .identifier } := by
-  have hnb := letter_not_blank hl
-  unfold startToken
-  simp [currentOperator, push, htr, hl.notOperator, hnb.1, hnb.2.1, hnb.2.2, hl.notWs, hl.notNumeric,
-    isIdentifierChar, hl.alnum]
-
-theorem walk_none_of_isNone {t : LexerOperatorNode} {cs : List Char} (h : (walkOperator t cs).isNone = true) :
-    walkOperator t cs = none := by
-  cases hw : walkOperator t cs with
-  | none => rfl
-  | some n => rw [hw] at h; cases h
-
-theorem startToken_blank (cc : CharClass) (σ : Lexer) (c : Char) (hb : IsBlank c)
-    (htr : σ.operatorTree = theTree) :
-    startToken cc σ c = { σ with currentCharacters := [c], currentTokenType := some .whitespace, tokenStartRow := σ.textRow, tokenStartColumn := σ.textColumn, state := .spaces } := by
-  have h1 := walk_none_of_isNone treeWs.1
-  have h2 := walk_none_of_isNone treeWs.2.1
-  unfold startToken
-  rcases hb with rfl | rfl <;> simp [currentOperator, push, htr, h1, h2]
-
-theorem startToken_newline (cc : CharClass) (σ : Lexer) (htr : σ.operatorTree = theTree) :
-    startToken cc σ '\n' = { σ with currentCharacters := ['\n'], currentTokenType := some .subexpression, tokenStartRow := σ.textRow, tokenStartColumn := σ.textColumn, state := .subexpression } := by
-  have h3 := walk_none_of_isNone treeWs.2.2
-  unfold startToken
-  simp [currentOperator, push, htr, h3, isAsciiWhitespace]
-
-theorem ident_start (cc : CharClass) (σ : Lexer) (c : Char) (hl : Letter cc c) (hs : σ.state = .noToken)
-    (hcr : σ.shouldCreate = true) (hok : σ.result = .ok) (htr : σ.operatorTree = theTree) :
-    ∃ σ1, processChar cc σ c = .ok (σ1, none) ∧ InIdent σ1 [c] := by
-  simp only [processChar, stateStep, hs, Step.ofPair, armNoToken, finishChar]
-  refine ⟨_, rfl, ?_⟩
-  rw [startToken_letter cc _ c hl (by simpa using htr)]
-  constructor <;> simp [bumpColumn, hcr, hok, htr] <;> (split <;> simp [hcr, hok, htr])
-
-theorem ident_push (cc : CharClass) (σ : Lexer) (cs : List Char) (c : Char) (hl : Letter cc c)
-    (h : InIdent σ cs) : ∃ σ1, processChar cc σ c = .ok (σ1, none) ∧ InIdent σ1 (cs ++ [c]) := by
-  obtain ⟨h1, h2, h3, h4, h5, h6⟩ := h
-  have hid : isIdentifierChar cc c = true := by simp [isIdentifierChar, hl.alnum]
-  simp only [processChar, stateStep, h1, Step.ofPair, armIdentifier, hid, ↓reduceIte, finishChar]
-  refine ⟨_, rfl, ?_⟩
-  constructor <;> simp [bumpColumn, push, h1, h2, h3, h4, h5, h6] <;> (split <;> simp [h1, h2, h3, h4, h5, h6, push])
-
-theorem ident_end_blank (cc : CharClass) (hws : cc.SaneWs) (σ : Lexer) (x : Char) (r : List Char) (c : Char)
-    (hx : Letter cc x) (hb : IsBlank c) (h : InIdent σ (x :: r)) :
-    ∃ σ1 t, processChar cc σ c = .ok (σ1, some t) ∧ t.text = x :: r ∧ WsA σ1 [c] := by
-  obtain ⟨h1, h2, h3, h4, h5, h6⟩ := h
-  have hid : isIdentifierChar cc c = false := by
-    rcases hb with rfl | rfl <;> simp [isIdentifierChar, hws.space, hws.tab]
-  have hbt : (c == '`') = false := by rcases hb with rfl | rfl <;> decide
-  have hcol : startsWith (x :: r) ':' = false := by simp [startsWith, hx.notColon]
-  have hv1 : (x :: r == ['_']) = false := by
-    simp only [beq_eq_false_iff_ne, ne_eq, List.cons.injEq, not_and]
-    intro hh; exact absurd hh hx.notUnderscore
-  have hv2 : (x :: r == [':']) = false := by
-    simp only [beq_eq_false_iff_ne, ne_eq, List.cons.injEq, not_and]
-    intro hh; exact absurd hh hx.notColon
-  simp only [processChar, stateStep, h1, Step.ofPair, armIdentifier, hid, hbt, Bool.false_eq_true, ↓reduceIte,
-    h2, hcol, Bool.false_and, finishChar, pushNewToken, canCreateValidToken, h3, hv1, hv2, Bool.or_self, h4]
-  simp only [h1, bne_iff_ne, ne_eq, reduceCtorEq, not_false_eq_true, ↓reduceIte, LexResult.isOk]
-  rw [startToken_blank cc _ c hb (by simpa using h6)]
-  refine ⟨_, _, rfl, rfl, ?_⟩
-  constructor <;> simp [bumpColumn, h5] <;> (split <;> simp [h5])
-
-theorem ident_end_newline (cc : CharClass) (hws : cc.SaneWs) (σ : Lexer) (x : Char) (r : List Char)
-    (hx : Letter cc x) (h : InIdent σ (x :: r)) :
-    ∃ σ1 t, processChar cc σ '\n' = .ok (σ1, some t) ∧ t.text = x :: r ∧ WsB σ1 ['\n'] := by
-  obtain ⟨h1, h2, h3, h4, h5, h6⟩ := h
-  have hid : isIdentifierChar cc '\n' = false := by simp [isIdentifierChar, hws.newline]
-  have hbt : (('\n' : Char) == '`') = false := by decide
-  have hcol : startsWith (x :: r) ':' = false := by simp [startsWith, hx.notColon]
-  have hv1 : (x :: r == ['_']) = false := by
-    simp only [beq_eq_false_iff_ne, ne_eq, List.cons.injEq, not_and]
-    intro hh; exact absurd hh hx.notUnderscore
-  have hv2 : (x :: r == [':']) = false := by
-    simp only [beq_eq_false_iff_ne, ne_eq, List.cons.injEq, not_and]
-    intro hh; exact absurd hh hx.notColon
-  simp only [processChar, stateStep, h1, Step.ofPair, armIdentifier, hid, hbt, Bool.false_eq_true, ↓reduceIte,
-    h2, hcol, Bool.false_and, finishChar, pushNewToken, canCreateValidToken, h3, hv1, hv2, Bool.or_self, h4]
-  simp only [h1, bne_iff_ne, ne_eq, reduceCtorEq, not_false_eq_true, ↓reduceIte, LexResult.isOk]
-  rw [startToken_newline cc _ (by simpa using h6)]
-  refine ⟨_, _, rfl, rfl, ?_⟩
-  constructor <;> simp [bumpColumn, h5]
-
-theorem run_ident (cc : CharClass) : ∀ (r : List Char) (σ : Lexer) (cs : List Char) (toks : List LexerToken),
-    InIdent σ cs → (∀ ch ∈ r, Letter cc ch) → ∃ σ1, runChars cc r σ toks = .ok (σ1, toks) ∧ InIdent σ1 (cs ++ r)
-  | [], σ, cs, toks, h, _ => ⟨σ, rfl, by simpa using h⟩
-  | c :: r, σ, cs, toks, h, hl => by
-    obtain ⟨σ1, hp, h1⟩ := ident_push cc σ cs c (hl c (by simp)) h
-    obtain ⟨σ2, hr, h2⟩ := run_ident cc r σ1 (cs ++ [c]) toks h1 (fun x hx => hl x (by simp [hx]))
-    exact ⟨σ2, by rw [runChars_none cc c r σ σ1 toks h.ok hp]; exact hr, by simpa using h2⟩
-
-/-- identifier-like strings (non-empty lists of letters) are token-boundary-safe -/
-theorem boundary_letters (cc : CharClass) (hws : cc.SaneWs) (x : Char) (r : List Char)
-    (hl : ∀ ch ∈ x :: r, Letter cc ch) : Boundary cc (Lexer.init theTree) (x :: r) := by
-  have hx := hl x (by simp)
-  obtain ⟨σ1, hp1, hi1⟩ := ident_start cc (Lexer.init theTree) x hx rfl rfl rfl rfl
-  obtain ⟨σ2, hr2, hi2⟩ := run_ident cc r σ1 [x] [] hi1 (fun ch hch => hl ch (by simp [hch]))
-  have hrun : runChars cc (x :: r) (Lexer.init theTree) [] = .ok (σ2, []) := by
-    rw [runChars_none cc x r _ σ1 [] rfl hp1]; exact hr2
-  constructor
-  · intro c hb
-    obtain ⟨σ3, t, hp3, htx, hA⟩ := ident_end_blank cc hws σ2 x r c hx hb (by simpa using hi2)
-    refine ⟨σ3, [t], ?_, hA, by simp [textsOf, htx]⟩
-    rw [runChars_append cc (x :: r) [c] _ σ2 [] [] hrun, runChars_some cc c [] σ2 σ3 [] t hi2.ok hp3 hA.ok]
-    rfl
-  · obtain ⟨σ3, t, hp3, htx, hB⟩ := ident_end_newline cc hws σ2 x r hx (by simpa using hi2)
-    refine ⟨σ3, [t], ?_, hB, by simp [textsOf, htx]⟩
-    rw [runChars_append cc (x :: r) ['\n'] _ σ2 [] [] hrun, runChars_some cc '\n' [] σ2 σ3 [] t hi2.ok hp3 hB.ok]
-    rfl
-
-/-! ## characters that cannot start a token -/
-
-/-- `c` can start a token: the disjunction of the branches of `start_token` (other than the end-of-input one) -/
-def CanStart (cc : CharClass) (tree : LexerOperatorNode) (c : Char) : Prop :=
-  (walkOperator tree [c]).isSome = true ∨ c = ' ' ∨ c = '\t' ∨ c = '\r' ∨ isAsciiWhitespace c = true ∨
-  cc.isNumeric c = true ∨ isIdentifierChar cc c = true ∨ c = '`' ∨ c = '@' ∨ c = '"' ∨ c = '\''
-
-theorem startToken_rejects (cc : CharClass) (σ : Lexer) (c : Char) (h : ¬CanStart cc σ.operatorTree c)
-    (hns : ¬Sentinel σ c) : (startToken cc σ c).result = .err := by
-  unfold CanStart at h
-  simp only [not_or] at h
-  obtain ⟨h1, h2, h3, h4, h5, h6, h7, h8, h9, h10, h11⟩ := h
-  have hw : walkOperator σ.operatorTree [c] = none := by
-    cases hw : walkOperator σ.operatorTree [c] with
-    | none => rfl
-    | some n => rw [hw] at h1; simp at h1
-  have hsent : ¬(c = '\x00' ∧ σ.atEnd = true) := hns
-  generalize hr : startToken cc σ c = r
-  unfold startToken at hr
-  simp [currentOperator, push, hw, h2, h3, h4, h5, h6, h7, h8, h9, h10, h11] at hr
-  split at hr
-  · rename_i hc; exact absurd hc hsent
-  · subst hr; rfl
-
-theorem runChars_frame (cc : CharClass) : ∀ (x : List Char) (σ σ1 : Lexer) (toks toks1 : List LexerToken),
-    runChars cc x σ toks = .ok (σ1, toks1) → σ1.operatorTree = σ.operatorTree ∧ σ1.atEnd = σ.atEnd
-  | [], σ, σ1, toks, toks1, h => by
-    simp only [runChars, Outcome.ok.injEq, Prod.mk.injEq] at h
-    obtain ⟨rfl, _⟩ := h; exact ⟨rfl, rfl⟩
-  | c :: x, σ, σ1, toks, toks1, h => by
-    simp only [runChars] at h
-    split at h
-    · cases h
-    · cases hp : processChar cc σ c with
-      | ok r =>
-        obtain ⟨σ2, ot⟩ := r
-        have hf := processChar_frame cc _ _ _ _ hp
-        rw [hp] at h
-        cases ot with
-        | none =>
-          have := runChars_frame cc x σ2 σ1 toks toks1 h
-          exact ⟨this.1.trans hf.1, this.2.trans hf.2.1⟩
-        | some t =>
-          simp only [] at h
-          cases hr : σ2.result with
-          | err => rw [hr] at h; cases h
-          | ok =>
-            rw [hr] at h
-            have := runChars_frame cc x σ2 σ1 _ toks1 h
-            exact ⟨this.1.trans hf.1, this.2.trans hf.2.1⟩
-      | err e => rw [hp] at h; cases h
-      | panic m => rw [hp] at h; cases h
-      | fuelOut => rw [hp] at h; cases h
-
-theorem processChar_noToken (cc : CharClass) (σ : Lexer) (c : Char) (hs : σ.state = .noToken) :
-    processChar cc σ c =
-      .ok (bumpColumn (startToken cc { σ with charactersLexed := σ.charactersLexed + 1 } c) c, none) := by
-  unfold processChar
-  simp only []
-  have hss : stateStep cc { σ with charactersLexed := σ.charactersLexed + 1 } c =
-      Step.ofPair (armNoToken cc { σ with charactersLexed := σ.charactersLexed + 1 } c) := by
-    unfold stateStep
-    have hs' : ({ σ with charactersLexed := σ.charactersLexed + 1 } : Lexer).state = .noToken := hs
-    rw [hs']
-  rw [hss]
-  simp only [Step.ofPair, armNoToken, finishChar, Bool.false_eq_true, ↓reduceIte]
-
-theorem lexLoop_rejects (cc : CharClass) (post : List Char) (c : Char) (σ : Lexer) (toks : List LexerToken)
-    (hs : σ.state = .noToken) (hat : σ.atEnd = false) (hc : ¬CanStart cc σ.operatorTree c) :
-    lexLoop cc (c :: post) σ toks = .err .syntax := by
-  simp only [lexLoop]
-  by_cases hE : σ.result.isErr = true
-  · have : σ.result = .err := by cases hr : σ.result <;> simp [hr, LexResult.isErr] at hE ⊢
-    rw [if_pos hE]
-    simp [lexFinish, this]
-  · have hns : ¬Sentinel { σ with charactersLexed := σ.charactersLexed + 1 } c := by
-      intro hsn; have := hsn.2; simp [hat] at this
-    have hrej := startToken_rejects cc { σ with charactersLexed := σ.charactersLexed + 1 } c hc hns
-    rw [if_neg hE, processChar_noToken cc σ c hs]
-    simp only []
-    rw [lexLoop_err cc post _ toks (by simpa using hrej)]
-
-/-- a character that cannot start a token, met between tokens, makes `lex` fail -/
-theorem lex_rejects (cc : CharClass) (pre post : List Char) (c : Char) (σ : Lexer) (toks : List LexerToken)
-    (hrun : runChars cc pre (Lexer.init theTree) [] = .ok (σ, toks)) (hs : σ.state = .noToken)
-    (hc : ¬CanStart cc theTree c) : lex cc (pre ++ c :: post) = .err .syntax := by
-  have hfr := runChars_frame cc pre _ σ [] toks hrun
-  have h1 : σ.operatorTree = theTree := hfr.1
-  have h2 : σ.atEnd = false := hfr.2
-  unfold lex lexFull
-  rw [new_eq]
-  simp only []
-  rw [lexLoop_append cc pre (c :: post) _ σ [] toks hrun,
-    lexLoop_rejects cc post c σ toks hs h2 (by rw [h1]; exact hc)]
-
-/-! ## operators: what is proved towards longest match -/
-
-/-- every spelling of the regenerated table is recognised by the operator tree with its token type -/
-def tableRecognised : Bool :=
-  Garnish.Gen.LexTables.operatorChars.all fun p =>
-    match walkOperator theTree p.1 with
-    | some n => n.tokenType == some p.2
-    | none => false
-
-theorem tableRecognised_true : tableRecognised = true := by decide
-
-/-- an operator token ends only when the next character continues no spelling (and no prefix of one):
-the Operator arm returns `start_new = true` only if the operator tree has no path for the characters so far
-followed by `c` -/
-theorem armOperator_maximal (cc : CharClass) (σ : Lexer) (c : Char) (h : (armOperator cc σ c).2 = true) :
-    walkOperator σ.operatorTree (σ.currentCharacters ++ [c]) = none := by
-  unfold armOperator at h
-  simp only [] at h
-  split at h
-  · simp at h
-  · rename_i hnone
-    simpa [currentOperator, push] using hnone
-
-/-- while an operator is being extended its token type is the one stored in the tree for the characters so far -/
-theorem armOperator_type (cc : CharClass) (σ : Lexer) (c : Char) (node : LexerOperatorNode)
-    (h : walkOperator σ.operatorTree (σ.currentCharacters ++ [c]) = some node) :
-    (armOperator cc σ c).1.currentTokenType = node.tokenType ∧ (armOperator cc σ c).2 = false ∧
-    (armOperator cc σ c).1.currentCharacters = σ.currentCharacters ++ [c] := by
-  unfold armOperator
-  simp [currentOperator, push, h]
-
-/-! ## the operator tree against the regenerated table -/
-
-/-- all nodes of the tree down to depth `fuel`, with the path leading to them -/
-def pathsFuel : Nat → LexerOperatorNode → List Char → List (List Char × LexerOperatorNode)
-  | 0, n, p => [(p, n)]
-  | f + 1, n, p => (p, n) :: n.children.flatMap (fun kc => pathsFuel f kc.2 (p ++ [kc.1]))
-
-theorem mapGet_mem {β : Type} : ∀ (m : List (Char × β)) (k : Char) (v : β), mapGet m k = some v → (k, v) ∈ m
-  | [], _, _, h => by simp [mapGet] at h
-  | (k0, v0) :: r, k, v, h => by
-    simp only [mapGet] at h
-    split at h
-    · rename_i hk
-      have : k0 = k := by simpa using hk
-      subst this
-      simp only [Option.some.injEq] at h
-      subst h; simp
-    · exact List.mem_cons_of_mem _ (mapGet_mem r k v h)
-
-theorem pathsFuel_self (f : Nat) (n : LexerOperatorNode) (p : List Char) : (p, n) ∈ pathsFuel f n p := by
-  cases f <;> simp [pathsFuel]
-
-theorem walk_mem_paths : ∀ (cs : List Char) (f : Nat) (t n : LexerOperatorNode) (p : List Char),
-    walkOperator t cs = some n → cs.length ≤ f → (p ++ cs, n) ∈ pathsFuel f t p
-  | [], f, t, n, p, h, _ => by
-    simp only [walkOperator, Option.some.injEq] at h
-    subst h; simpa using pathsFuel_self f t p
-  | c :: r, 0, t, n, p, h, hl => by simp at hl
-  | c :: r, f + 1, t, n, p, h, hl => by
-    simp only [walkOperator] at h
-    cases hg : t.getChild c with
-    | none => rw [hg] at h; cases h
-    | some ch =>
-      rw [hg] at h
-      have hmem := mapGet_mem _ _ _ hg
-      have := walk_mem_paths r f ch n (p ++ [c]) h (by simpa using hl)
-      simp only [pathsFuel, List.mem_cons, List.mem_flatMap]
-      right
-      exact ⟨(c, ch), hmem, by simpa [List.append_assoc] using this⟩
-
-theorem walk_append : ∀ (a b : List Char) (t n : LexerOperatorNode), walkOperator t (a ++ b) = some n →
-    ∃ m, walkOperator t a = some m ∧ walkOperator m b = some n
-  | [], b, t, n, h => ⟨t, rfl, h⟩
-  | c :: a, b, t, n, h => by
-    simp only [List.cons_append, walkOperator] at h ⊢
-    cases hg : t.getChild c with
-    | none => rw [hg] at h; cases h
-    | some ch => rw [hg] at h; exact walk_append a b ch n h
-
-/-- the tree is at most 4 deep -/
-def depthCheck : Bool :=
-  (pathsFuel 4 theTree []).all fun pn => pn.1.length < 4 || pn.2.children.isEmpty
-
-theorem depthCheck_true : depthCheck = true := by decide +kernel
-
-theorem walk_length_le (cs : List Char) (n : LexerOperatorNode) (h : walkOperator theTree cs = some n) :
-    cs.length ≤ 4 := by
-  by_cases hl : cs.length ≤ 4
-  · exact hl
-  · exfalso
-    have hsplit : cs = cs.take 4 ++ cs.drop 4 := (List.take_append_drop 4 cs).symm
-    rw [hsplit] at h
-    obtain ⟨m, hm, hn⟩ := walk_append _ _ _ _ h
-    have hlen : (cs.take 4).length = 4 := by simp; omega
-    have hmem := walk_mem_paths (cs.take 4) 4 theTree m [] hm (by omega)
-    have hd := depthCheck_true
-    unfold depthCheck at hd
-    rw [List.all_eq_true] at hd
-    have := hd _ hmem
-    simp only [List.nil_append, hlen, Nat.lt_irrefl, decide_false, Bool.false_or] at this
-    cases hdrop : cs.drop 4 with
-    | nil => have : (cs.drop 4).length = 0 := by rw [hdrop]; rfl
-             simp at this; omega
-    | cons x r =>
-      rw [hdrop] at hn
-      simp only [walkOperator, LexerOperatorNode.getChild] at hn
-      have hch : m.children = [] := by simpa [List.isEmpty_iff] using this
-      rw [hch] at hn
-      simp [mapGet] at hn
-
-/-- every typed node of the tree is an entry of the regenerated table -/
-def typedNodesInTable : Bool :=
-  (pathsFuel 4 theTree []).all fun pn =>
-    match pn.2.tokenType with
-    | none => true
-    | some ty => Garnish.Gen.LexTables.operatorChars.contains (pn.1, ty)
-
-theorem typedNodesInTable_true : typedNodesInTable = true := by decide +kernel
-
-/-- soundness of the tree: what it recognises with a type is a spelling of the table with that type -/
-theorem tree_sound (cs : List Char) (n : LexerOperatorNode) (ty : Gen.TokenType)
-    (h : walkOperator theTree cs = some n) (hty : n.tokenType = some ty) :
-    (cs, ty) ∈ Garnish.Gen.LexTables.operatorChars := by
-  have hmem := walk_mem_paths cs 4 theTree n [] h (walk_length_le cs n h)
-  have hc := typedNodesInTable_true
-  unfold typedNodesInTable at hc
-  rw [List.all_eq_true] at hc
-  have := hc _ hmem
-  simp only [List.nil_append, hty] at this
-  simpa using this
-
-/-- every prefix of a spelling of the table is a path of the tree -/
-theorem table_prefix_path (sp : List Char) (ty : Gen.TokenType) (a b : List Char)
-    (h : (sp, ty) ∈ Garnish.Gen.LexTables.operatorChars) (hab : sp = a ++ b) :
-    ∃ m, walkOperator theTree a = some m := by
-  have hr := tableRecognised_true
-  unfold tableRecognised at hr
-  rw [List.all_eq_true] at hr
-  have := hr _ h
-  cases hw : walkOperator theTree sp with
-  | none => rw [hw] at this; cases this
-  | some n =>
-    rw [hab] at hw
-    obtain ⟨m, hm, _⟩ := walk_append a b theTree n hw
-    exact ⟨m, hm⟩
-
-/-! ## second invariant: state, pending token type and allowed characters -/
-
-/-- token types of the operator table -/
-def isOpType (ty : Gen.TokenType) : Bool := Garnish.Gen.LexTables.operatorChars.any (fun p => p.2 == ty)
-
-@[simp] theorem isOpType_whitespace : isOpType .whitespace = false := by decide
-@[simp] theorem isOpType_subexpression : isOpType .subexpression = false := by decide
-@[simp] theorem isOpType_number : isOpType .number = false := by decide
-@[simp] theorem isOpType_identifier : isOpType .identifier = false := by decide
-@[simp] theorem isOpType_symbol : isOpType .symbol = false := by decide
-@[simp] theorem isOpType_suffixIdentifier : isOpType .suffixIdentifier = false := by decide
-@[simp] theorem isOpType_prefixIdentifier : isOpType .prefixIdentifier = false := by decide
-@[simp] theorem isOpType_infixIdentifier : isOpType .infixIdentifier = false := by decide
-@[simp] theorem isOpType_annotation : isOpType .annotation = false := by decide
-@[simp] theorem isOpType_lineAnnotation : isOpType .lineAnnotation = false := by decide
-@[simp] theorem isOpType_charList : isOpType .charList = false := by decide
-@[simp] theorem isOpType_byteList : isOpType .byteList = false := by decide
-
-/-- literal / comment token types: their text may contain anything -/
-def isLitType (ty : Gen.TokenType) : Bool := ty == .charList || ty == .byteList || ty == .lineAnnotation
-
-def isLitState (s : LexingState) : Bool :=
-  s == .charList || s == .startCharList || s == .byteList || s == .startByteList || s == .lineAnnotation
-
-/-- `c` occurs in some path of the operator tree (a spelling of the table or a prefix of one) -/
-def InOperatorPath (c : Char) : Prop := ∃ cs, c ∈ cs ∧ (walkOperator theTree cs).isSome = true
-
-/-- `c` can start or continue some token: alphanumeric, numeric, ASCII whitespace, one of ``_ : . ` @ " '``,
-or a character of an operator spelling -/
-def CanStartOrContinue (cc : CharClass) (c : Char) : Prop :=
-  cc.isAlphanumeric c = true ∨ cc.isNumeric c = true ∨ isAsciiWhitespace c = true ∨
-  c = '_' ∨ c = ':' ∨ c = '.' ∨ c = '`' ∨ c = '@' ∨ c = '"' ∨ c = '\'' ∨ InOperatorPath c
-
-theorem ok_alnum {cc : CharClass} {c : Char} (h : cc.isAlphanumeric c = true) : CanStartOrContinue cc c := Or.inl h
-theorem ok_num {cc : CharClass} {c : Char} (h : cc.isNumeric c = true) : CanStartOrContinue cc c := Or.inr (Or.inl h)
-theorem ok_ws {cc : CharClass} {c : Char} (h : isAsciiWhitespace c = true) : CanStartOrContinue cc c :=
-  Or.inr (Or.inr (Or.inl h))
-theorem ok_under (cc : CharClass) : CanStartOrContinue cc '_' := by simp [CanStartOrContinue]
-theorem ok_colon (cc : CharClass) : CanStartOrContinue cc ':' := by simp [CanStartOrContinue]
-theorem ok_dot (cc : CharClass) : CanStartOrContinue cc '.' := by simp [CanStartOrContinue]
-theorem ok_backtick (cc : CharClass) : CanStartOrContinue cc '`' := by simp [CanStartOrContinue]
-theorem ok_at (cc : CharClass) : CanStartOrContinue cc '@' := by simp [CanStartOrContinue]
-theorem ok_path {cc : CharClass} {c : Char} (h : InOperatorPath c) : CanStartOrContinue cc c := by
-  simp [CanStartOrContinue, h]
-theorem ok_nua {cc : CharClass} {c : Char} (h : (cc.isNumeric c || c == '_' || cc.isAlphanumeric c) = true) :
-    CanStartOrContinue cc c := by
-  simp only [Bool.or_eq_true, beq_iff_eq] at h
-  rcases h with (h | h) | h
-  · exact ok_num h
-  · subst h; exact ok_under cc
-  · exact ok_alnum h
-theorem ok_identChar {cc : CharClass} {c : Char} (h : isIdentifierChar cc c = true) : CanStartOrContinue cc c := by
-  simp only [isIdentifierChar, Bool.or_eq_true, beq_iff_eq] at h
-  rcases h with (h | h) | h
-  · exact ok_alnum h
-  · subst h; exact ok_under cc
-  · subst h; exact ok_colon cc
-theorem ok_blank {cc : CharClass} {c : Char} (h : c = ' ' ∨ c = '\t') : CanStartOrContinue cc c := by
-  rcases h with rfl | rfl <;> exact ok_ws (by decide)
-
-theorem ok_snoc {cc : CharClass} {cs : List Char} {c : Char} (h : ∀ x ∈ cs, CanStartOrContinue cc x)
-    (hc : CanStartOrContinue cc c) : ∀ x ∈ cs ++ [c], CanStartOrContinue cc x := by
-  intro x hx
-  simp only [List.mem_append, List.mem_singleton] at hx
-  rcases hx with hx | rfl
-  · exact h x hx
-  · exact hc
-
-theorem path_chars_ok {cc : CharClass} {cs : List Char} {n : LexerOperatorNode}
-    (h : walkOperator theTree cs = some n) : ∀ x ∈ cs, CanStartOrContinue cc x :=
-  fun x hx => ok_path ⟨cs, hx, by simp [h]⟩
-
-/-- relation between the state, the pending token type and the pending characters -/
-structure Typed (cc : CharClass) (σ : Lexer) : Prop where
-  op : σ.state = .operator → ∃ node, walkOperator theTree σ.currentCharacters = some node ∧
-        σ.currentTokenType = node.tokenType
-  nonOp : σ.state ≠ .operator → σ.state ≠ .noToken → ∃ ty, σ.currentTokenType = some ty ∧ isOpType ty = false
-  lit : isLitState σ.state = true → ∃ ty, σ.currentTokenType = some ty ∧ isLitType ty = true
-  chars : isLitState σ.state = false → ∀ c ∈ σ.currentCharacters, CanStartOrContinue cc c
-
-/-- what is known about an emitted token -/
-structure TokOk (cc : CharClass) (text : List Char) (ty : Gen.TokenType) : Prop where
-  op : isOpType ty = true → ∃ node, walkOperator theTree text = some node ∧ node.tokenType = some ty
-  chars : isLitType ty = false → ∀ c ∈ text, CanStartOrContinue cc c
-
-/-- an arm that ends the token (`start_new`): the token about to be emitted is fine, and an operator token is ended
-by a character `c` that is not part of it and continues no path of the tree -/
-def EmitOk (cc : CharClass) (σ1 : Lexer) (c : Char) : Prop :=
-  ∀ ty, σ1.currentTokenType = some ty →
-    TokOk cc σ1.currentCharacters ty ∧
-    (isOpType ty = true → walkOperator theTree (σ1.currentCharacters ++ [c]) = none ∧ σ1.shouldCreate = true)
-
-def ArmTyped (cc : CharClass) (c : Char) (p : Lexer × Bool) : Prop :=
-  (p.2 = false → Typed cc p.1) ∧ (p.2 = true → EmitOk cc p.1 c)
-
-theorem typed_nonOp_emit {cc : CharClass} {σ1 : Lexer} {c : Char} {ty0 : Gen.TokenType}
-    (hty : σ1.currentTokenType = some ty0) (hno : isOpType ty0 = false)
-    (hch : isLitType ty0 = false → ∀ x ∈ σ1.currentCharacters, CanStartOrContinue cc x) : EmitOk cc σ1 c := by
-  intro ty h
-  rw [hty] at h
-  simp only [Option.some.injEq] at h
-  subst h
-  exact ⟨⟨fun h => (by rw [hno] at h; cases h), hch⟩, fun h => (by rw [hno] at h; cases h)⟩
-
-theorem Typed.mkPlain {cc : CharClass} {σ1 : Lexer} (hs1 : σ1.state ≠ .operator) (hl : isLitState σ1.state = false)
-    (ty : Gen.TokenType) (hty : σ1.currentTokenType = some ty) (hno : isOpType ty = false)
-    (hch : ∀ x ∈ σ1.currentCharacters, CanStartOrContinue cc x) : Typed cc σ1 :=
-  ⟨fun h => absurd h hs1, fun _ _ => ⟨ty, hty, hno⟩, fun h => (by rw [hl] at h; cases h), fun _ => hch⟩
-
-theorem Typed.mkLit {cc : CharClass} {σ1 : Lexer} (hs1 : σ1.state ≠ .operator) (hl : isLitState σ1.state = true)
-    (ty : Gen.TokenType) (hty : σ1.currentTokenType = some ty) (hno : isOpType ty = false)
-    (hlt : isLitType ty = true) : Typed cc σ1 :=
-  ⟨fun h => absurd h hs1, fun _ _ => ⟨ty, hty, hno⟩, fun _ => ⟨ty, hty, hlt⟩, fun h => (by rw [hl] at h; cases h)⟩
-
-theorem Typed.mkOp {cc : CharClass} {σ1 : Lexer} (hs1 : σ1.state = .operator) (node : LexerOperatorNode)
-    (hw : walkOperator theTree σ1.currentCharacters = some node) (hty : σ1.currentTokenType = node.tokenType) :
-    Typed cc σ1 :=
-  ⟨fun _ => ⟨node, hw, hty⟩, fun h => absurd hs1 h, fun h => (by rw [hs1] at h; simp [isLitState] at h),
-   fun _ => path_chars_ok hw⟩
-
-theorem Typed.noToken {cc : CharClass} {σ1 : Lexer} (hs1 : σ1.state = .noToken) (hch : σ1.currentCharacters = []) :
-    Typed cc σ1 :=
-  ⟨fun h => (by rw [hs1] at h; cases h), fun _ h => absurd hs1 h, fun h => (by rw [hs1] at h; simp [isLitState] at h),
-   fun _ => (by rw [hch]; simp)⟩
-
-theorem armNumber_typed (cc : CharClass) (σ : Lexer) (c : Char) (hs : σ.state = .number) (ht : Typed cc σ) :
-    ArmTyped cc c (armNumber cc σ c) := by
-  obtain ⟨ty, hty, hno⟩ := ht.nonOp (by rw [hs]; decide) (by rw [hs]; decide)
-  have hch := ht.chars (by rw [hs]; rfl)
-  unfold armNumber
-  split
-  · rename_i h
-    exact ⟨fun _ => Typed.mkPlain (by simp [hs]) (by simp [hs, isLitState]) ty hty hno (ok_snoc hch (ok_nua h)),
-      fun h => by simp at h⟩
-  · split
-    · rename_i h
-      have : c = '.' := by simp at h; exact h.1
-      subst this
-      exact ⟨fun _ => Typed.mkPlain (by simp) (by simp [isLitState]) .number rfl (by simp) (ok_snoc hch (ok_dot cc)),
-        fun h => by simp at h⟩
-    · exact ⟨fun h => by simp at h, fun _ => typed_nonOp_emit hty hno (fun _ => hch)⟩
-
-theorem armIdentifier_typed (cc : CharClass) (σ : Lexer) (c : Char) (hs : σ.state = .identifier) (ht : Typed cc σ) :
-    ArmTyped cc c (armIdentifier cc σ c) := by
-  obtain ⟨ty, hty, hno⟩ := ht.nonOp (by rw [hs]; decide) (by rw [hs]; decide)
-  have hch := ht.chars (by rw [hs]; rfl)
-  unfold armIdentifier
-  split
-  · rename_i h
-    exact ⟨fun _ => Typed.mkPlain (by simp [hs]) (by simp [hs, isLitState]) ty hty hno (ok_snoc hch (ok_identChar h)),
-      fun h => by simp at h⟩
-  · split
-    · rename_i h
-      have : c = '`' := by simpa using h
-      subst this
-      refine ⟨fun h => by simp at h, fun _ => ?_⟩
-      simp only []
-      split
-      · exact typed_nonOp_emit rfl (by simp) (fun _ => ok_snoc hch (ok_backtick cc))
-      · exact typed_nonOp_emit rfl (by simp) (fun _ => ok_snoc hch (ok_backtick cc))
-    · refine ⟨fun h => by simp at h, fun _ => ?_⟩
-      simp only []
-      split
-      · exact typed_nonOp_emit rfl (by simp) (fun _ => hch)
-      · exact typed_nonOp_emit hty hno (fun _ => hch)
-
-theorem armAnnotation_typed (cc : CharClass) (σ : Lexer) (c : Char) (hs : σ.state = .annotation) (ht : Typed cc σ) :
-    ArmTyped cc c (armAnnotation cc σ c) := by
-  obtain ⟨ty, hty, hno⟩ := ht.nonOp (by rw [hs]; decide) (by rw [hs]; decide)
-  have hch := ht.chars (by rw [hs]; rfl)
-  unfold armAnnotation
-  split
-  · exact ⟨fun _ => Typed.mkLit (by simp) (by simp [isLitState]) .lineAnnotation rfl (by simp) (by simp [isLitType]),
-      fun h => by simp at h⟩
-  · split
-    · rename_i h
-      have hc : CanStartOrContinue cc c := by
-        simp only [Bool.or_eq_true, beq_iff_eq] at h
-        rcases h with h | h
-        · exact ok_alnum h
-        · subst h; exact ok_under cc
-      exact ⟨fun _ => Typed.mkPlain (by simp [hs]) (by simp [hs, isLitState]) ty hty hno (ok_snoc hch hc),
-        fun h => by simp at h⟩
-    · exact ⟨fun h => by simp at h, fun _ => typed_nonOp_emit hty hno (fun _ => hch)⟩
-
-theorem armSpaces_typed (cc : CharClass) (σ : Lexer) (c : Char) (hs : σ.state = .spaces) (ht : Typed cc σ) :
-    ArmTyped cc c (armSpaces σ c) := by
-  obtain ⟨ty, hty, hno⟩ := ht.nonOp (by rw [hs]; decide) (by rw [hs]; decide)
-  have hch := ht.chars (by rw [hs]; rfl)
-  unfold armSpaces
-  split
-  · rename_i h
-    have : c = '\n' := by simpa using h
-    subst this
-    have hnl : CanStartOrContinue cc '\n' := ok_ws (by decide)
-    split
-    · exact ⟨fun h => by simp at h, fun _ => typed_nonOp_emit rfl (by simp) (fun _ => ok_snoc hch hnl)⟩
-    · exact ⟨fun _ => Typed.mkPlain (by simp) (by simp [isLitState]) ty hty hno (ok_snoc hch hnl),
-        fun h => by simp at h⟩
-  · split
-    · exact ⟨fun h => by simp at h, fun _ => typed_nonOp_emit hty hno (fun _ => hch)⟩
-    · rename_i h
-      have hb : c = ' ' ∨ c = '\t' := by
-        simp only [bne_iff_ne, ne_eq, Bool.and_eq_true, decide_eq_true_eq, not_and, Decidable.not_not] at h
-        by_cases h1 : c = ' '
-        · exact Or.inl h1
-        · exact Or.inr (h h1)
-      exact ⟨fun _ => Typed.mkPlain (by simp [hs]) (by simp [hs, isLitState]) ty hty hno (ok_snoc hch (ok_blank hb)),
-        fun h => by simp at h⟩
-
-theorem armSubexpression_typed (cc : CharClass) (σ : Lexer) (c : Char) (hs : σ.state = .subexpression)
-    (ht : Typed cc σ) : ArmTyped cc c (armSubexpression σ c) := by
-  have hch := ht.chars (by rw [hs]; rfl)
-  unfold armSubexpression
-  split
-  · rename_i h
-    have hc : CanStartOrContinue cc c := ok_ws (by simp at h; exact h.1)
-    exact ⟨fun h => by simp at h, fun _ => typed_nonOp_emit rfl (by simp) (fun _ => ok_snoc hch hc)⟩
-  · simp only []
-    split
-    · rename_i h
-      have hb : c = ' ' ∨ c = '\t' := by
-        simp only [Bool.or_eq_true, beq_iff_eq] at h
-        exact h.symm
-      exact ⟨fun _ => Typed.mkPlain (by simp) (by simp [isLitState]) .whitespace rfl (by simp)
-        (ok_snoc hch (ok_blank hb)), fun h => by simp at h⟩
-    · exact ⟨fun h => by simp at h, fun _ => typed_nonOp_emit rfl (by simp) (fun _ => hch)⟩
-
-theorem lit_emit {cc : CharClass} {σ1 : Lexer} {c : Char} {ty0 : Gen.TokenType}
-    (hty : σ1.currentTokenType = some ty0) (hno : isOpType ty0 = false) (hl : isLitType ty0 = true) :
-    EmitOk cc σ1 c :=
-  typed_nonOp_emit hty hno (fun h => by rw [hl] at h; cases h)
-
-theorem armStartCharList_typed (cc : CharClass) (σ : Lexer) (c : Char) (hs : σ.state = .startCharList)
-    (ht : Typed cc σ) : ArmTyped cc c (armStartCharList σ c) := by
-  obtain ⟨ty, hty, hno⟩ := ht.nonOp (by rw [hs]; decide) (by rw [hs]; decide)
-  obtain ⟨ty', hty', hlt⟩ := ht.lit (by rw [hs]; rfl)
-  rw [hty] at hty'; cases hty'
-  generalize hr : armStartCharList σ c = r
-  unfold armStartCharList at hr
-  simp only [] at hr
-  repeat' split at hr
-  all_goals subst hr
-  all_goals refine ⟨fun h => ?_, fun h => ?_⟩
-  all_goals first
-    | (exfalso; simp at h; done)
-    | exact lit_emit hty hno hlt
-    | exact Typed.mkLit (by simp [hs]) (by simp [hs, isLitState]) ty hty hno hlt
-
-theorem armCharList_typed (cc : CharClass) (σ : Lexer) (c : Char) (hs : σ.state = .charList)
-    (ht : Typed cc σ) : ArmTyped cc c (armCharList σ c) := by
-  obtain ⟨ty, hty, hno⟩ := ht.nonOp (by rw [hs]; decide) (by rw [hs]; decide)
-  obtain ⟨ty', hty', hlt⟩ := ht.lit (by rw [hs]; rfl)
-  rw [hty] at hty'; cases hty'
-  generalize hr : armCharList σ c = r
-  unfold armCharList at hr
-  simp only [] at hr
-  repeat' split at hr
-  all_goals subst hr
-  all_goals refine ⟨fun h => ?_, fun h => ?_⟩
-  all_goals first
-    | (exfalso; simp at h; done)
-    | exact lit_emit hty hno hlt
-    | exact Typed.mkLit (by simp [hs]) (by simp [hs, isLitState]) ty hty hno hlt
-
-theorem armStartByteList_typed (cc : CharClass) (σ : Lexer) (c : Char) (hs : σ.state = .startByteList)
-    (ht : Typed cc σ) : ArmTyped cc c (armStartByteList σ c) := by
-  obtain ⟨ty, hty, hno⟩ := ht.nonOp (by rw [hs]; decide) (by rw [hs]; decide)
-  obtain ⟨ty', hty', hlt⟩ := ht.lit (by rw [hs]; rfl)
-  rw [hty] at hty'; cases hty'
-  generalize hr : armStartByteList σ c = r
-  unfold armStartByteList at hr
-  simp only [] at hr
-  repeat' split at hr
-  all_goals subst hr
-  all_goals refine ⟨fun h => ?_, fun h => ?_⟩
-  all_goals first
-    | (exfalso; simp at h; done)
-    | exact lit_emit hty hno hlt
-    | exact Typed.mkLit (by simp [hs]) (by simp [hs, isLitState]) ty hty hno hlt
-
-theorem armByteList_typed (cc : CharClass) (σ : Lexer) (c : Char) (hs : σ.state = .byteList)
-    (ht : Typed cc σ) : ArmTyped cc c (armByteList σ c) := by
-  obtain ⟨ty, hty, hno⟩ := ht.nonOp (by rw [hs]; decide) (by rw [hs]; decide)
-  obtain ⟨ty', hty', hlt⟩ := ht.lit (by rw [hs]; rfl)
-  rw [hty] at hty'; cases hty'
-  generalize hr : armByteList σ c = r
-  unfold armByteList at hr
-  simp only [] at hr
-  repeat' split at hr
-  all_goals subst hr
-  all_goals refine ⟨fun h => ?_, fun h => ?_⟩
-  all_goals first
-    | (exfalso; simp at h; done)
-    | exact lit_emit hty hno hlt
-    | exact Typed.mkLit (by simp [hs]) (by simp [hs, isLitState]) ty hty hno hlt
-
-theorem armLineAnnotation_typed (cc : CharClass) (σ : Lexer) (c : Char) (hs : σ.state = .lineAnnotation)
-    (ht : Typed cc σ) : ArmTyped cc c (armLineAnnotation σ c) := by
-  obtain ⟨ty, hty, hno⟩ := ht.nonOp (by rw [hs]; decide) (by rw [hs]; decide)
-  obtain ⟨ty', hty', hlt⟩ := ht.lit (by rw [hs]; rfl)
-  rw [hty] at hty'; cases hty'
-  generalize hr : armLineAnnotation σ c = r
-  unfold armLineAnnotation at hr
-  repeat' split at hr
-  all_goals subst hr
-  all_goals refine ⟨fun h => ?_, fun h => ?_⟩
-  all_goals first
-    | (exfalso; simp at h; done)
-    | exact lit_emit hty hno hlt
-    | exact Typed.mkLit (by simp [hs]) (by simp [hs, isLitState]) ty hty hno hlt
-
-theorem armOperator_typed (cc : CharClass) (σ : Lexer) (c : Char) (hs : σ.state = .operator) (ht : Typed cc σ)
-    (htr : σ.operatorTree = theTree) (hcr : σ.shouldCreate = true) : ArmTyped cc c (armOperator cc σ c) := by
-  obtain ⟨node0, hw0, hty0⟩ := ht.op hs
-  have hch : ∀ x ∈ σ.currentCharacters, CanStartOrContinue cc x := path_chars_ok hw0
-  unfold armOperator
-  simp only []
-  split
-  · rename_i node heq
-    have hw : walkOperator theTree (σ.currentCharacters ++ [c]) = some node := by
-      simpa [currentOperator, push, htr] using heq
-    exact ⟨fun _ => Typed.mkOp (by simp [hs]) node (by simpa [push] using hw) rfl, fun h => by simp at h⟩
-  · rename_i heq
-    have hw : walkOperator theTree (σ.currentCharacters ++ [c]) = none := by
-      simpa [currentOperator, push, htr] using heq
-    split
-    · rename_i h
-      have hid : isIdentifierChar cc c = true := by
-        simp only [Bool.and_eq_true, isIdentifier, push, List.all_append, List.all_cons, List.all_nil,
-          Bool.and_true] at h
-        exact h.2.2
-      exact ⟨fun _ => Typed.mkPlain (by simp) (by simp [isLitState]) .identifier rfl (by simp)
-        (by simpa [push] using ok_snoc hch (ok_identChar hid)), fun h => by simp at h⟩
-    · split
-      · rename_i h
-        have hnum : cc.isNumeric c = true := by
-          simp only [Bool.and_eq_true] at h
-          exact h.1.2
-        exact ⟨fun _ => Typed.mkPlain (by simp) (by simp [isLitState]) .number rfl (by simp)
-          (by simpa [push] using ok_snoc hch (ok_num hnum)), fun h => by simp at h⟩
-      · refine ⟨fun h => by simp at h, fun _ => ?_⟩
-        intro ty hty
-        simp only [pop_push] at hty ⊢
-        rw [hty0] at hty
-        exact ⟨⟨fun _ => ⟨node0, hw0, hty⟩, fun _ => hch⟩, fun _ => ⟨hw, hcr⟩⟩
-
-theorem startToken_typed (cc : CharClass) (σ : Lexer) (c : Char) (htr : σ.operatorTree = theTree)
-    (hs : σ.state = .noToken) : (startToken cc σ c).result = .err ∨ Typed cc (startToken cc σ c) := by
-  unfold startToken
-  simp only []
-  split
-  · rename_i node heq
-    have hw : walkOperator theTree [c] = some node := by simpa [currentOperator, push, htr] using heq
-    exact Or.inr (Typed.mkOp rfl node (by simpa [push] using hw) rfl)
-  · split
-    · rename_i h
-      have hc : CanStartOrContinue cc c := by
-        simp only [Bool.or_eq_true, beq_iff_eq] at h
-        rcases h with (h | h) | h <;> subst h <;> exact ok_ws (by decide)
-      exact Or.inr (Typed.mkPlain (by simp) (by simp [isLitState]) .whitespace rfl (by simp)
-        (by simpa [push] using hc))
-    · split
-      · rename_i h
-        exact Or.inr (Typed.mkPlain (by simp) (by simp [isLitState]) .subexpression rfl (by simp)
-          (by simpa [push] using (ok_ws h : CanStartOrContinue cc c)))
-      · split
-        · rename_i h
-          exact Or.inr (Typed.mkPlain (by simp) (by simp [isLitState]) .number rfl (by simp)
-            (by simpa [push] using (ok_num h : CanStartOrContinue cc c)))
-        · split
-          · rename_i h
-            exact Or.inr (Typed.mkPlain (by simp) (by simp [isLitState]) .identifier rfl (by simp)
-              (by simpa [push] using (ok_identChar h : CanStartOrContinue cc c)))
-          · split
-            · rename_i h
-              have : c = '`' := by simpa using h
-              subst this
-              exact Or.inr (Typed.mkPlain (by simp) (by simp [isLitState]) .suffixIdentifier rfl (by simp)
-                (by simpa [push] using ok_backtick cc))
-            · split
-              · rename_i h
-                have : c = '@' := by simpa using h
-                subst this
-                exact Or.inr (Typed.mkPlain (by simp) (by simp [isLitState]) .annotation rfl (by simp)
-                  (by simpa [push] using ok_at cc))
-              · split
-                · exact Or.inr (Typed.mkLit (by simp) (by simp [isLitState]) .charList rfl (by simp)
-                    (by simp [isLitType]))
-                · split
-                  · exact Or.inr (Typed.mkLit (by simp) (by simp [isLitState]) .byteList rfl (by simp)
-                      (by simp [isLitType]))
-                  · split
-                    · exact Or.inr (Typed.noToken rfl rfl)
-                    · exact Or.inl rfl
-
-theorem startToken_dot (cc : CharClass) (σ : Lexer) (htr : σ.operatorTree = theTree) :
-    (startToken cc σ '.').state = .operator ∧ (startToken cc σ '.').currentCharacters = ['.'] ∧
-    (startToken cc σ '.').operatorTree = theTree := by
-  have hdot : (walkOperator theTree ['.']).isSome = true := by decide
-  cases hw : walkOperator theTree ['.'] with
-  | none => rw [hw] at hdot; cases hdot
-  | some node =>
-    unfold startToken
-    simp [currentOperator, push, htr, hw]
-
-theorem trimMatches_mem (cs : List Char) (d x : Char) (h : x ∈ trimMatches cs d) : x ∈ cs := by
-  unfold trimMatches at h
-  have h1 : x ∈ ((cs.dropWhile (· == d)).reverse.dropWhile (· == d)) := by simpa using h
-  have h2 := (List.dropWhile_sublist _).subset h1
-  have h3 : x ∈ cs.dropWhile (· == d) := by simpa using h2
-  exact (List.dropWhile_sublist _).subset h3
-
-/-- the Float arm: typed result, and the number emitted by the float split is fine -/
-theorem armFloat_typed (cc : CharClass) (σ : Lexer) (c : Char) (hs : σ.state = .float) (ht : Typed cc σ)
-    (htr : σ.operatorTree = theTree) (st : Step) (h : armFloat cc σ c = .ok st) :
-    match st with
-    | .cont σ1 nt sn => ArmTyped cc c (σ1, sn) ∧
-        (∀ t, nt = some t → sn = false ∧ isOpType t.tokenType = false ∧ TokOk cc t.text t.tokenType)
-    | .returnNone _ => True := by
-  obtain ⟨ty, hty, hno⟩ := ht.nonOp (by rw [hs]; decide) (by rw [hs]; decide)
-  have hch := ht.chars (by rw [hs]; rfl)
-  unfold armFloat at h
-  split at h
-  · rename_i hc
-    cases h
-    exact ⟨⟨fun _ => Typed.mkPlain (by simp [hs]) (by simp [hs, isLitState]) ty hty hno (ok_snoc hch (ok_nua hc)),
-      fun h => by simp at h⟩, fun t ht => by cases ht⟩
-  · split at h
-    · simp only [] at h
-      split at h
-      · cases h
-      · have hsd := startToken_dot cc { σ with tokenStartRow := σ.textRow } (by simpa using htr)
-        generalize startToken cc { σ with tokenStartRow := σ.textRow } '.' = s1 at h hsd
-        split at h
-        · rename_i node heq
-          cases h
-          have hw : walkOperator theTree ['.', c] = some node := by
-            simpa [currentOperator, push, hsd.2.1, hsd.2.2] using heq
-          refine ⟨⟨fun _ => Typed.mkOp (by simpa using hsd.1) node (by simpa [push, hsd.2.1] using hw) rfl,
-            fun h => by simp at h⟩, ?_⟩
-          intro t ht
-          simp only [Option.some.injEq] at ht
-          subst ht
-          refine ⟨rfl, by simp, ⟨fun h => by simp at h, fun _ x hx => hch x (trimMatches_mem _ _ _ hx)⟩⟩
-        · cases h; trivial
-    · cases h
-      exact ⟨⟨fun h => by simp at h, fun _ => typed_nonOp_emit hty hno (fun _ => hch)⟩, fun t ht => by cases ht⟩
 
 /-! ### operator tokens and the character after them -/
 
